@@ -274,6 +274,1610 @@ def pack_orientation(body, dimname, what):
     return buf, a == "j"
 
 
+# ------------------------------------------------------------------------------------------------
+# round 5: a small C++ front end (statement parser + path-enumerating symbolic executor)
+#
+# The pieces of the source whose *spelling* used to be matched literally (the max-norm preconditioning, the column choice
+# of the 2x2 routine, the maximum search of eig0, the copy loops around the LAPACK calls) are now parsed into a small
+# AST and executed symbolically; what is compared / emitted is the resulting *state* (a decision tree over canonical
+# comparison atoms with symbolic values at the leaves), so renamed or hoisted locals, `?:` versus `if/else` versus guard
+# clauses, `a > b` versus `b < a`, helper lambdas, running counters versus computed indices, std::copy versus a hand loop
+# all normalise to the same thing.  Everything outside the subset raises TranslateError (never a guess).
+# ------------------------------------------------------------------------------------------------
+TPL_NAMES = {"FieldVector", "FieldMatrix", "std::numeric_limits", "std::vector", "std::pair", "std::make_unique",
+             "std::unique_ptr", "clamp", "static_cast", "std::conditional_t", "std::is_same_v", "DynamicVector",
+             "DynamicMatrix", "FieldTraits", "std::complex", "std::array"}
+CTOK = re.compile(r"""\s*(?:
+      (?P<num>(?:[0-9]+\.?[0-9]*|\.[0-9]+)(?:[eE][-+]?[0-9]+)?[fFlLuU]*)
+    | (?P<id>[A-Za-z_]\w*(?:\s*::\s*[A-Za-z_]\w*)*)
+    | (?P<str>"(?:[^"\\]|\\.)*")
+    | (?P<chr>'(?:[^'\\]|\\.)')
+    | (?P<op>->|\+\+|--|<<|>>|<=|>=|==|!=|&&|\|\||[-+*/]=|[-+*/%<>=!&|(){}\[\],;?:.~^])
+    )""", re.X)
+
+
+class Unsupported(TranslateError):
+    pass
+
+
+def ctokenize(src):
+    src = re.sub(r"(?m)^\s*#.*$", "", src)
+    pos, out = 0, []
+    n = len(src)
+    while True:
+        while pos < n and src[pos].isspace():
+            pos += 1
+        if pos >= n:
+            break
+        m = CTOK.match(src, pos)
+        if not m or m.end() == pos:
+            raise Unsupported("cannot tokenise C++ at %r" % src[pos:pos + 30])
+        pos = m.end()
+        if m.group("id"):
+            name = norm_ws(m.group("id"))
+            # fold the template argument list of a known template name into the identifier
+            while name in TPL_NAMES or name.split("<")[0] in TPL_NAMES:
+                k = pos
+                while k < n and src[k].isspace():
+                    k += 1
+                if k >= n or src[k] != "<" or "<" in name:
+                    break
+                depth, j = 0, k
+                while j < n:
+                    if src[j] == "<":
+                        depth += 1
+                    elif src[j] == ">":
+                        depth -= 1
+                        if depth == 0:
+                            break
+                    elif src[j] in ";{}":
+                        raise Unsupported("template argument list of %s not closed" % name)
+                    j += 1
+                name += norm_ws(src[k:j + 1])
+                pos = j + 1
+                m2 = re.compile(r"\s*::\s*([A-Za-z_]\w*)").match(src, pos)
+                if m2:
+                    name += "::" + m2.group(1)
+                    pos = m2.end()
+                break
+            out.append(("id", name))
+        elif m.group("num"):
+            out.append(("num", m.group("num").rstrip("fFlLuU") if not re.match(r"^0[xX]", m.group("num")) else m.group("num")))
+        elif m.group("str"):
+            out.append(("str", m.group("str")))
+        elif m.group("chr"):
+            out.append(("chr", m.group("chr")))
+        else:
+            out.append(("op", m.group("op")))
+    return out
+
+
+class CParseError(Exception):
+    pass
+
+
+DECL_PREFIX = {"const", "constexpr", "static", "volatile", "typename", "unsigned", "long", "signed", "short"}
+ASSIGN_OPS = {"=", "+=", "-=", "*=", "/="}
+
+
+class CParser:
+    """statements: ('block', [..]) ('nop',) ('if', cond, then, else|None) ('for', init, cond, [incr], body) ('return', e|None)
+    ('throw',) ('decl', name, init|None, flags) ('expr', e) ('opaque', [token texts])"""
+
+    def __init__(self, text):
+        self.t = ctokenize(text)
+        self.i = 0
+
+    # -- token helpers
+    def peek(self, k=0):
+        return self.t[self.i + k] if self.i + k < len(self.t) else (None, None)
+
+    def at(self, val, k=0):
+        return self.peek(k)[0] in ("op", "id") and self.peek(k)[1] == val
+
+    def eat(self, val=None):
+        k, v = self.peek()
+        if k is None or (val is not None and v != val):
+            raise CParseError("wanted %r, found %r" % (val, v))
+        self.i += 1
+        return v
+
+    # -- statements
+    def program(self):
+        out = []
+        while self.peek()[0] is not None:
+            out.append(self.stmt())
+        return out
+
+    def stmt(self):
+        save = self.i
+        try:
+            return self._stmt()
+        except CParseError:
+            self.i = save
+            return self.opaque()
+
+    def opaque(self):
+        depth, toks = 0, []
+        while True:
+            k, v = self.peek()
+            if k is None:
+                break
+            if k == "op" and v in "([{":
+                depth += 1
+            if k == "op" and v in ")]}":
+                if depth == 0:
+                    break
+                depth -= 1
+                toks.append(v)
+                self.i += 1
+                if v == "}" and depth == 0 and not self.at("else"):
+                    break
+                continue
+            toks.append(v)
+            self.i += 1
+            if k == "op" and v == ";" and depth == 0:
+                break
+        if not toks:
+            raise Unsupported("cannot skip over %r" % (self.peek(),))
+        return ("opaque", toks)
+
+    def block_or_stmt(self):
+        return self.stmt()
+
+    def _stmt(self):
+        k, v = self.peek()
+        if (k, v) == ("op", "{"):
+            self.eat("{")
+            body = []
+            while not self.at("}"):
+                if self.peek()[0] is None:
+                    raise CParseError("unclosed block")
+                body.append(self.stmt())
+            self.eat("}")
+            return ("block", body)
+        if (k, v) == ("op", ";"):
+            self.eat()
+            return ("nop",)
+        if k == "id" and v == "using":
+            while not self.at(";"):
+                self.eat()
+            self.eat(";")
+            return ("nop",)
+        if k == "id" and v == "DUNE_THROW":
+            self.eat()
+            self.eat("(")
+            depth = 1
+            while depth:
+                kk, vv = self.peek()
+                if kk is None:
+                    raise CParseError("unclosed DUNE_THROW")
+                depth += (vv == "(" and kk == "op") - (vv == ")" and kk == "op")
+                self.i += 1
+            self.eat(";")
+            return ("throw",)
+        if k == "id" and v == "if":
+            self.eat()
+            if self.at("constexpr"):
+                self.eat()
+            self.eat("(")
+            c = self.expr()
+            self.eat(")")
+            th = self.stmt()
+            el = None
+            if self.at("else"):
+                self.eat()
+                el = self.stmt()
+            return ("if", c, th, el)
+        if k == "id" and v == "for":
+            self.eat()
+            self.eat("(")
+            init = self._stmt()          # declaration or expression statement (eats the `;`)
+            cond = None if self.at(";") else self.expr()
+            self.eat(";")
+            incr = []
+            if not self.at(")"):
+                incr.append(self.assignment())
+                while self.at(","):
+                    self.eat()
+                    incr.append(self.assignment())
+            self.eat(")")
+            return ("for", init, cond, incr, self.stmt())
+        if k == "id" and v == "return":
+            self.eat()
+            e = None if self.at(";") else self.expr()
+            self.eat(";")
+            return ("return", e)
+        if k == "id" and v in ("while", "do", "switch", "goto", "try", "delete", "break", "continue"):
+            raise CParseError("statement %s outside the subset" % v)
+        d = self.try_decl()
+        if d is not None:
+            return d
+        e = self.expr()
+        self.eat(";")
+        return ("expr", e)
+
+    def try_decl(self):
+        j, flags = self.i, set()
+        while self.t[j][0] == "id" and self.t[j][1] in DECL_PREFIX if j < len(self.t) else False:
+            flags.add(self.t[j][1])
+            j += 1
+        if j >= len(self.t) or self.t[j][0] != "id":
+            return None
+        ty = self.t[j][1]
+        if ty in ("int", "double", "float", "char", "bool", "auto", "size_t"):
+            pass
+        elif flags & {"long", "unsigned", "short"} and (j + 1 >= len(self.t) or self.t[j + 1][0] != "id"):
+            j -= 1                        # `long x`, `unsigned x`
+            ty = "int"
+        j += 1
+        while j < len(self.t) and self.t[j] in (("op", "*"), ("op", "&"), ("id", "const")):
+            if self.t[j][1] in "*&":
+                flags.add("ptr" if self.t[j][1] == "*" else "ref")
+            j += 1
+        if j + 1 >= len(self.t) or self.t[j][0] != "id" or self.t[j + 1] not in (("op", "="), ("op", "("), ("op", "{"), ("op", "["), ("op", ";"), ("op", ",")):
+            return None
+        if self.t[j][1] in DECL_PREFIX or ty in ("return", "else", "new"):
+            return None
+        self.i = j
+        decls = []
+        while True:
+            name = self.eat()
+            size, init = None, None
+            if self.at("["):
+                self.eat()
+                size = self.expr()
+                self.eat("]")
+                flags = flags | {"array"}
+            if self.at("="):
+                self.eat()
+                init = self.assignment()
+            elif self.at("(") or self.at("{"):
+                close = ")" if self.eat() == "(" else "}"
+                args = []
+                if not self.at(close):
+                    args.append(self.assignment())
+                    while self.at(","):
+                        self.eat()
+                        args.append(self.assignment())
+                self.eat(close)
+                init = args[0] if len(args) == 1 else ("ctor", ty, args)
+            decls.append(("decl", name, init, frozenset(flags), size, ty))
+            if self.at(","):
+                self.eat()
+                continue
+            break
+        self.eat(";")
+        return decls[0] if len(decls) == 1 else ("seq", decls)
+
+    # -- expressions
+    def expr(self):
+        return self.assignment()
+
+    def assignment(self):
+        lhs = self.ternary()
+        k, v = self.peek()
+        if k == "op" and v in ASSIGN_OPS:
+            self.eat()
+            return ("asg", v, lhs, self.assignment())
+        return lhs
+
+    def ternary(self):
+        c = self.binary(0)
+        if self.at("?"):
+            self.eat()
+            a = self.assignment()
+            self.eat(":")
+            b = self.assignment()
+            return ("cond", c, a, b)
+        return c
+
+    LEVELS = [("||",), ("&&",), ("==", "!="), ("<", ">", "<=", ">="), ("+", "-"), ("*", "/", "%")]
+
+    def binary(self, lvl):
+        if lvl == len(self.LEVELS):
+            return self.unary()
+        e = self.binary(lvl + 1)
+        while self.peek()[0] == "op" and self.peek()[1] in self.LEVELS[lvl]:
+            o = self.eat()
+            e = ("bin", o, e, self.binary(lvl + 1))
+        if self.peek() in (("op", "<<"), ("op", ">>"), ("op", "|"), ("op", "^")):
+            raise CParseError("operator outside the subset")
+        return e
+
+    def unary(self):
+        k, v = self.peek()
+        if k == "op" and v in ("-", "!", "&", "*", "++", "--", "+"):
+            self.eat()
+            return ("un", v, self.unary())
+        if k == "id" and v in ("new", "delete", "sizeof", "throw"):
+            raise CParseError("%s outside the subset" % v)
+        return self.postfix()
+
+    def args(self, close):
+        a = []
+        if not self.at(close):
+            a.append(self.assignment())
+            while self.at(","):
+                self.eat()
+                a.append(self.assignment())
+        self.eat(close)
+        return a
+
+    def postfix(self):
+        e = self.primary()
+        while True:
+            k, v = self.peek()
+            if (k, v) == ("op", "("):
+                self.eat()
+                e = ("call", e, self.args(")"))
+            elif (k, v) == ("op", "["):
+                self.eat()
+                i = self.expr()
+                self.eat("]")
+                e = ("idx", e, i)
+            elif (k, v) in (("op", "."), ("op", "->")):
+                self.eat()
+                if self.peek()[0] != "id":
+                    raise CParseError("member name expected")
+                e = ("mem", e if v == "." else ("un", "*", e), self.eat())
+            elif (k, v) in (("op", "++"), ("op", "--")):
+                self.eat()
+                e = ("post", v, e)
+            else:
+                return e
+
+    def primary(self):
+        k, v = self.peek()
+        if k == "num":
+            self.eat()
+            return ("num", v)
+        if k in ("str", "chr"):
+            self.eat()
+            return (k, v)
+        if k == "id":
+            self.eat()
+            if self.at("{"):
+                self.eat()
+                return ("ctor", v, self.args("}"))
+            return ("id", v)
+        if (k, v) == ("op", "("):
+            self.eat()
+            e = self.expr()
+            self.eat(")")
+            return e
+        if (k, v) == ("op", "{"):
+            self.eat()
+            return ("init", self.args("}"))
+        if (k, v) == ("op", "["):          # lambda
+            self.eat()
+            caps = []
+            while not self.at("]"):
+                caps.append(self.eat())
+            self.eat("]")
+            params = []
+            if self.at("("):
+                self.eat()
+                cur = []
+                depth = 0
+                while not (self.at(")") and depth == 0):
+                    kk, vv = self.peek()
+                    if kk is None:
+                        raise CParseError("unclosed parameter list")
+                    if kk == "op" and vv == "," and depth == 0:
+                        params.append(cur)
+                        cur = []
+                    else:
+                        depth += (kk == "op" and vv == "(") - (kk == "op" and vv == ")")
+                        cur.append((kk, vv))
+                    self.eat()
+                self.eat(")")
+                if cur:
+                    params.append(cur)
+            names = []
+            for p in params:
+                if not p or p[-1][0] != "id":
+                    raise CParseError("lambda parameter without a name")
+                names.append(p[-1][1])
+            if self.at("->"):
+                self.eat()
+                while not self.at("{"):
+                    self.eat()
+            if not self.at("{"):
+                raise CParseError("lambda body expected")
+            body = self._stmt()
+            return ("lambda", names, body, caps)
+        raise CParseError("unexpected token %r" % ((k, v),))
+
+
+def ast_ids(node, acc=None):
+    """all identifier / token texts mentioned in a statement or expression"""
+    acc = set() if acc is None else acc
+    if isinstance(node, (list, tuple)):
+        if len(node) >= 2 and node[0] == "id" and isinstance(node[1], str):
+            acc.add(node[1])
+        elif len(node) >= 2 and node[0] == "opaque":
+            acc.update(x for x in node[1] if isinstance(x, str))
+        elif len(node) >= 2 and node[0] == "decl":
+            acc.add(node[1])
+            ast_ids(node[2], acc)
+            ast_ids(node[4], acc)
+        elif len(node) >= 2 and node[0] == "lambda":
+            ast_ids(node[2], acc)
+        else:
+            for x in node:
+                ast_ids(x, acc)
+    return acc
+
+
+class NeedChoice(Exception):
+    def __init__(self, atom):
+        self.atom = atom
+
+
+class NeedInit(Exception):
+    def __init__(self, name):
+        self.name = name
+
+
+class ReturnEx(Exception):
+    def __init__(self, value):
+        self.value = value
+
+
+class ThrowEx(Exception):
+    pass
+
+
+CASTS = {"K", "real_type", "LapackNumType", "double", "float", "field_type", "int", "long", "size_t", "std::size_t",
+         "FieldVector<K,2>", "FieldVector<K,3>", "Vector"}
+PURE_FUNCS = {"isnormal", "isfinite", "sqrt", "abs", "max", "min", "crossProduct", "acos", "cos", "std::complex<double>"}
+PURE_METHODS = {"infinity_norm", "two_norm", "two_norm2", "dot", "rows", "cols", "size", "N", "M", "first", "second"}
+# procedures with output arguments: name -> (positions of outputs)
+PROCS = {"eigenValues2dImpl": (1,), "eigenValues3dImpl": (1,), "eig0": (2,), "eig1": (2,), "orthoComp": (1, 2)}
+
+
+def strip_ns(name):
+    for p in ("Impl::", "std::", "Dune::", "FMatrixHelp::"):
+        while name.startswith(p):
+            name = name[len(p):]
+    return name
+
+
+class Exec:
+    """deterministic symbolic executor; comparisons that cannot be decided consult `script` (the DFS driver `explore`
+    enumerates the scripts).  Values: python int / bool, ('num', Fraction), ('sym', name), ('op', o, a, b), ('neg', a),
+    ('callv', f, args), ('methv', obj, name, args), ('idxv', a, k), ('initv', elems), ('upd', a, k, v), ('arr', id),
+    ('ptr', id, off), ('lptr', lvalue, off), ('lam', ..), ('null',), ('uninit', name)"""
+
+    def __init__(self, script=()):
+        self.script = list(script)
+        self.decisions = []            # [(atom, bool)] in order
+        self.scopes = [{}]
+        self.heap = {}
+        self.trace = []
+        self.steps = 0
+
+    # -- environment
+    def lookup_scope(self, name):
+        for s in reversed(self.scopes):
+            if name in s:
+                return s
+        return None
+
+    def get(self, name):
+        s = self.lookup_scope(name)
+        if s is None:
+            last = name.split("::")[-1]
+            s = self.lookup_scope(last)
+            if s is None:
+                raise NeedInit(name)
+            name = last
+        v = s[name]
+        if isinstance(v, tuple) and v and v[0] == "alias":
+            return self.eval(v[1])
+        return v
+
+    def set(self, name, val):
+        s = self.lookup_scope(name)
+        if s is None:
+            raise NeedInit(name)
+        v = s[name]
+        if isinstance(v, tuple) and v and v[0] == "alias":
+            return self.assign(v[1], val)
+        s[name] = val
+
+    def declare(self, name, val):
+        self.scopes[-1][name] = val
+
+    def alloc(self, size, default=None):
+        k = len(self.heap)
+        self.heap[k] = {"__size__": size, "__default__": default}
+        return ("arr", k)
+
+    # -- decisions
+    def decide(self, atom):
+        for a, b in self.decisions:
+            if a == atom:
+                return b
+        k = len(self.decisions)
+        if k < len(self.script):
+            b = self.script[k]
+            self.decisions.append((atom, b))
+            return b
+        raise NeedChoice(atom)
+
+    def truth(self, v):
+        if isinstance(v, bool):
+            return v
+        if isinstance(v, int):
+            return v != 0
+        if isinstance(v, tuple) and v[0] == "num":
+            return v[1] != 0
+        if isinstance(v, tuple) and v[0] == "not":
+            return not self.truth(v[1])
+        if isinstance(v, tuple) and v[0] == "null":
+            return False
+        if isinstance(v, tuple) and v[0] in ("arr", "ptr", "lptr"):
+            return True
+        if isinstance(v, tuple) and v[0] in ("lt", "le", "eq", "callv", "sym", "methv", "idxv"):
+            return self.decide(v)
+        raise Unsupported("cannot use %r as a condition" % (v,))
+
+    # -- statements
+    def run(self, stmts):
+        for s in stmts:
+            self.exec(s)
+
+    def exec(self, s):
+        self.steps += 1
+        if self.steps > 200000:
+            raise Unsupported("execution does not terminate")
+        k = s[0]
+        if k == "nop":
+            return
+        if k == "block":
+            self.scopes.append({})
+            try:
+                self.run(s[1])
+            finally:
+                self.scopes.pop()
+            return
+        if k == "seq":
+            self.run(s[1])
+            return
+        if k == "decl":
+            _, name, init, flags, size, ty = s
+            if "array" in flags:
+                n = self.eval(size)
+                if not isinstance(n, int) or isinstance(n, bool):
+                    raise Unsupported("array %s of non-constant size" % name)
+                self.declare(name, self.alloc(n))
+            elif "ref" in flags and init is not None and "const" not in flags:
+                self.declare(name, ("alias", self.freeze(init)))
+            elif init is None:
+                self.declare(name, ("uninit", name))
+            else:
+                self.declare(name, self.eval(init))
+            return
+        if k == "expr":
+            self.eval(s[1])
+            return
+        if k == "if":
+            if self.truth(self.eval(s[1])):
+                self.exec_scoped(s[2])
+            elif s[3] is not None:
+                self.exec_scoped(s[3])
+            return
+        if k == "for":
+            self.scopes.append({})
+            try:
+                self.exec(s[1])
+                n = 0
+                while s[2] is None or self.truth(self.eval(s[2])):
+                    n += 1
+                    if n > 4096:
+                        raise Unsupported("loop does not terminate")
+                    self.exec_scoped(s[4])
+                    for e in s[3]:
+                        self.eval(e)
+            finally:
+                self.scopes.pop()
+            return
+        if k == "return":
+            raise ReturnEx(None if s[1] is None else self.eval(s[1]))
+        if k == "throw":
+            raise ThrowEx()
+        if k == "opaque":
+            raise Unsupported("statement outside the subset: %s" % " ".join(s[1])[:80])
+        raise Unsupported("statement kind %r" % k)
+
+    def exec_scoped(self, s):
+        self.scopes.append({})
+        try:
+            self.exec(s)
+        finally:
+            self.scopes.pop()
+
+    # -- lvalues
+    def freeze(self, node):
+        """evaluate the index sub-expressions of an lvalue now (for references / pointers)"""
+        if node[0] == "idx":
+            return ("idx", self.freeze(node[1]), ("lit", self.eval(node[2])))
+        if node[0] == "un" and node[1] == "*":
+            return ("un", "*", self.freeze(node[1 + 1]))
+        if node[0] == "id":
+            sc = self.lookup_scope(node[1])
+            if sc is not None and isinstance(sc[node[1]], tuple) and sc[node[1]] and sc[node[1]][0] == "alias":
+                return sc[node[1]][1]
+            return node
+        raise Unsupported("reference to %r" % (node[0],))
+
+    def assign(self, node, val):
+        k = node[0]
+        if k == "id":
+            return self.set(node[1], val)
+        if k == "un" and node[1] == "*":
+            return self.assign(node[2], val)
+        if k == "idx":
+            kv = self.eval(node[2])
+            if not isinstance(kv, int) or isinstance(kv, bool):
+                raise Unsupported("store at a non-constant index")
+            bv = self.get(node[1][1]) if node[1][0] == "id" else self.eval(node[1])   # a local filled entry by entry may be unassigned so far
+            if isinstance(bv, tuple) and bv[0] in ("arr", "ptr"):
+                off = kv + (bv[2] if bv[0] == "ptr" else 0)
+                cell = self.heap[bv[1]]
+                if cell["__size__"] is not None and not (0 <= off < cell["__size__"]):
+                    raise Unsupported("store outside an array (index %d of %d)" % (off, cell["__size__"]))
+                cell[off] = val
+                return
+            if isinstance(bv, tuple) and bv[0] == "lptr":
+                return self.assign(("idx", bv[1], ("lit", bv[2] + kv)), val)
+            return self.assign(node[1], ("upd", bv, kv, val))
+        raise Unsupported("assignment to %r" % (k,))
+
+    def read(self, bv, kv):
+        if isinstance(bv, tuple) and bv[0] in ("arr", "ptr"):
+            if not isinstance(kv, int) or isinstance(kv, bool):
+                raise Unsupported("load at a non-constant index")
+            off = kv + (bv[2] if bv[0] == "ptr" else 0)
+            cell = self.heap[bv[1]]
+            if cell["__size__"] is not None and not (0 <= off < cell["__size__"]):
+                raise Unsupported("load outside an array (index %d of %d)" % (off, cell["__size__"]))
+            if off in cell:
+                return cell[off]
+            if cell["__default__"] is not None:
+                return ("idxv", cell["__default__"], off)
+            raise Unsupported("load of an uninitialised array element")
+        if isinstance(bv, tuple) and bv[0] == "lptr":
+            return self.eval(("idx", bv[1], ("lit", bv[2] + kv)))
+        if not isinstance(kv, int) or isinstance(kv, bool):
+            raise Unsupported("subscript is not a constant")
+        while isinstance(bv, tuple) and bv[0] == "upd":
+            if bv[2] == kv:
+                return bv[3]
+            bv = bv[1]
+        if isinstance(bv, tuple) and bv[0] == "initv":
+            if kv < len(bv[1]):
+                return bv[1][kv]
+            raise Unsupported("subscript outside an initialiser list")
+        if isinstance(bv, tuple) and bv[0] in ("uninit", "null", "num") or isinstance(bv, int):
+            raise Unsupported("subscript of %r" % (bv,))
+        return ("idxv", bv, kv)
+
+    # -- expressions
+    def arith(self, o, a, b):
+        ia = isinstance(a, int) and not isinstance(a, bool)
+        ib = isinstance(b, int) and not isinstance(b, bool)
+        if ia and ib:
+            if o == "+":
+                return a + b
+            if o == "-":
+                return a - b
+            if o == "*":
+                return a * b
+            if o == "/" and b != 0:
+                q = abs(a) // abs(b)
+                return q if (a >= 0) == (b >= 0) else -q
+            if o == "%" and b != 0:
+                return a - b * self.arith("/", a, b)
+        if isinstance(a, tuple) and a[0] in ("ptr", "lptr") and ib and o in "+-":
+            return (a[0], a[1], a[2] + (b if o == "+" else -b))
+        if isinstance(b, tuple) and b[0] in ("ptr", "lptr") and ia and o == "+":
+            return (b[0], b[1], b[2] + a)
+        if isinstance(a, tuple) and isinstance(b, tuple) and a[0] == b[0] == "ptr" and a[1] == b[1] and o == "-":
+            return a[2] - b[2]
+        for x in (a, b):
+            if isinstance(x, tuple) and x[0] in ("arr", "ptr", "lptr", "lam", "null", "uninit"):
+                raise Unsupported("arithmetic on %r" % (x[0],))
+        if o == "%":
+            raise Unsupported("symbolic %")
+        return ("op", o, a, b)
+
+    def compare(self, o, a, b):
+        ia = isinstance(a, int) and not isinstance(a, bool)
+        ib = isinstance(b, int) and not isinstance(b, bool)
+        if ia and ib:
+            return {"<": a < b, ">": a > b, "<=": a <= b, ">=": a >= b, "==": a == b, "!=": a != b}[o]
+        if isinstance(a, tuple) and a[0] == "num" and a[1].denominator == 1:
+            a = int(a[1])
+        if isinstance(b, tuple) and b[0] == "num" and b[1].denominator == 1:
+            b = int(b[1])
+        if o == "<":
+            return ("lt", a, b)
+        if o == ">":
+            return ("lt", b, a)
+        if o == "<=":
+            return ("le", a, b)
+        if o == ">=":
+            return ("le", b, a)
+        if a == b and not (isinstance(a, tuple) and a[0] in ("op", "neg", "callv", "methv", "idxv")):
+            return o == "=="
+        at = ("eq",) + tuple(sorted((a, b), key=repr))
+        return at if o == "==" else ("not", at)
+
+    def eval(self, e):
+        k = e[0]
+        if k == "lit":
+            return e[1]
+        if k == "num":
+            t = e[1]
+            if re.match(r"^[0-9]+$", t):
+                return int(t)
+            return ("num", Fraction(t))
+        if k == "chr":
+            return ("chr", e[1])
+        if k == "str":
+            return ("str", e[1])
+        if k == "id":
+            if e[1] == "nullptr":
+                return ("null",)
+            if e[1] in ("true", "false"):
+                return e[1] == "true"
+            v = self.get(e[1])
+            if isinstance(v, tuple) and v and v[0] == "uninit":
+                raise Unsupported("use of %s before it is assigned" % e[1])
+            return v
+        if k == "un":
+            o = e[1]
+            if o == "&":
+                t = e[2]
+                if t[0] == "idx":
+                    bv = self.eval(t[1])
+                    kv = self.eval(t[2])
+                    if isinstance(bv, tuple) and bv[0] in ("arr", "ptr") and isinstance(kv, int):
+                        return ("ptr", bv[1], kv + (bv[2] if bv[0] == "ptr" else 0))
+                    if isinstance(kv, int):
+                        return ("lptr", self.freeze(t[1]), kv)
+                if t[0] == "id":
+                    return ("addr", t[1])
+                raise Unsupported("address of %r" % (t[0],))
+            if o in ("++", "--"):
+                v = self.arith(o[0], self.eval(e[2]), 1)
+                self.assign(e[2], v)
+                return v
+            v = self.eval(e[2])
+            if o == "*":
+                return v
+            if o == "+":
+                return v
+            if o == "-":
+                if isinstance(v, int) and not isinstance(v, bool):
+                    return -v
+                if isinstance(v, tuple) and v[0] == "num":
+                    return ("num", -v[1])
+                return ("neg", v)
+            if o == "!":
+                return not self.truth(v)
+        if k == "post":
+            old = self.eval(e[2])
+            self.assign(e[2], self.arith(e[1][0], old, 1))
+            return old
+        if k == "bin":
+            o = e[1]
+            if o == "&&":
+                return self.truth(self.eval(e[2])) and self.truth(self.eval(e[3]))
+            if o == "||":
+                return self.truth(self.eval(e[2])) or self.truth(self.eval(e[3]))
+            a = self.eval(e[2])
+            b = self.eval(e[3])
+            if o in ("<", ">", "<=", ">=", "==", "!="):
+                return self.compare(o, a, b)
+            return self.arith(o, a, b)
+        if k == "cond":
+            return self.eval(e[2]) if self.truth(self.eval(e[1])) else self.eval(e[3])
+        if k == "asg":
+            rhs = self.eval(e[3])
+            if e[1] != "=":
+                rhs = self.arith(e[1][0], self.eval(e[2]), rhs)
+            self.assign(e[2], rhs)
+            return rhs
+        if k == "init":
+            return ("initv", tuple(self.eval(x) for x in e[1]))
+        if k == "ctor":
+            args = [self.eval(x) for x in e[2]]
+            if e[1].startswith("std::unique_ptr") and not args:
+                return ("null",)
+            if len(args) == 1 and isinstance(args[0], tuple) and args[0][0] == "initv":
+                return args[0]
+            return ("initv", tuple(args))
+        if k == "idx":
+            return self.read(self.eval(e[1]), self.eval(e[2]))
+        if k == "mem":
+            v = self.eval(e[1])
+            if e[2] in ("first", "second"):
+                return ("methv", v, e[2], ())
+            raise Unsupported("member %s" % e[2])
+        if k == "lambda":
+            byval = {}
+            caps = e[3]
+            for j, c in enumerate(caps):
+                if re.match(r"^[A-Za-z_]\w*$", c) and c != "this" and (j == 0 or caps[j - 1] != "&"):
+                    byval[c] = self.get(c)
+            return ("lam", tuple(e[1]), e[2], tuple(self.scopes), tuple(sorted(byval.items(), key=repr)), "=" in caps)
+        if k == "call":
+            return self.call(e)
+        raise Unsupported("expression kind %r" % (k,))
+
+    def call(self, e):
+        f, argn = e[1], e[2]
+        if f[0] == "mem":
+            obj, name = f[1], f[2]
+            if name in PURE_METHODS:
+                return ("methv", self.eval(obj), name, tuple(self.eval(a) for a in argn))
+            if name in ("get", "data", "begin") and not argn:
+                v = self.eval(obj)
+                if isinstance(v, tuple) and v[0] == "arr":
+                    return ("ptr", v[1], 0)
+                if isinstance(v, tuple) and v[0] in ("null", "ptr"):
+                    return v
+                return ("lptr", self.freeze(obj), 0)
+            if name == "resize":
+                self.trace.append(("resize", self.freeze(obj), tuple(self.eval(a) for a in argn)))
+                return None
+            if name == "mv" and len(argn) == 2:
+                self.assign(argn[1], ("methv", self.eval(obj), "mv", (self.eval(argn[0]),)))
+                return None
+            raise Unsupported("method %s" % name)
+        if f[0] != "id":
+            raise Unsupported("call of a computed function")
+        name = f[1]
+        s = self.lookup_scope(name)
+        if s is not None and isinstance(s[name], tuple) and s[name] and s[name][0] == "lam":
+            lam = s[name]
+            if len(lam[1]) != len(argn):
+                raise Unsupported("lambda %s called with %d arguments" % (name, len(argn)))
+            for nm, v0 in lam[4]:
+                if self.get(nm) != v0:
+                    raise Unsupported("lambda %s captured %s by value and it changed since" % (name, nm))
+            args = [self.eval(a) for a in argn]
+            saved = self.scopes
+            self.scopes = list(lam[3]) + [dict(zip(lam[1], args))]
+            try:
+                self.exec(lam[2])
+                return None
+            except ReturnEx as r:
+                return r.value
+            finally:
+                self.scopes = saved
+        base = strip_ns(name)
+        if base in CASTS or base.startswith("static_cast<"):
+            if len(argn) != 1:
+                return ("initv", tuple(self.eval(a) for a in argn))
+            v = self.eval(argn[0])
+            if isinstance(v, int) and not isinstance(v, bool) and base in ("K", "real_type", "LapackNumType", "double", "float", "field_type"):
+                return ("num", Fraction(v))
+            return v
+        if base in PURE_FUNCS:
+            return ("callv", base, tuple(self.eval(a) for a in argn))
+        if re.match(r"^numeric_limits<(K|real_type)>::epsilon$", base) and not argn:
+            return ("sym", "eps")
+        if base.startswith("make_unique<"):
+            n = self.eval(argn[0]) if len(argn) == 1 else None
+            if not isinstance(n, int) or isinstance(n, bool):
+                raise Unsupported("make_unique of non-constant size")
+            return self.alloc(n)
+        if base in PROCS:
+            args = []
+            for j, a in enumerate(argn):
+                if j in PROCS[base] and a[0] == "id":
+                    args.append(self.get(a[1]))          # an output argument may be unassigned so far
+                else:
+                    args.append(self.eval(a))
+            callno = len(self.trace)
+            self.trace.append(("call", base, tuple(args)))
+            for p in PROCS[base]:
+                if p < len(argn):
+                    self.assign(argn[p], ("out", base, p, callno, tuple(args[:min(PROCS[base])])))
+            return ("callv", base, tuple(args[:min(PROCS[base])]))
+        if base in ("copy", "copy_n") and len(argn) == 3:
+            a, b, c = [self.eval(x) for x in argn]
+            if base == "copy":
+                if not (isinstance(a, tuple) and isinstance(b, tuple) and a[0] == b[0] == "ptr" and a[1] == b[1]):
+                    raise Unsupported("std::copy over something that is not a range of one array")
+                cnt = b[2] - a[2]
+            else:
+                cnt = b
+            if not isinstance(cnt, int) or isinstance(cnt, bool) or cnt < 0 or not (isinstance(a, tuple) and a[0] == "ptr"):
+                raise Unsupported("std::%s with a non-constant extent" % base)
+            if not (isinstance(c, tuple) and c[0] in ("ptr", "lptr")):
+                raise Unsupported("std::%s into something that is not a pointer" % base)
+            for j in range(cnt):
+                v = self.read(a, j)
+                if c[0] == "ptr":
+                    self.assign(("idx", ("lit", c), ("lit", j)), v)
+                else:
+                    self.assign(("idx", c[1], ("lit", c[2] + j)), v)
+            return None
+        if base == "swap" and len(argn) == 2:
+            a, b = self.eval(argn[0]), self.eval(argn[1])
+            self.assign(argn[0], b)
+            self.assign(argn[1], a)
+            return None
+        raise Unsupported("call of %s" % name)
+
+
+def explore(make, script=()):
+    """decision tree of all paths: ('leaf', exec, outcome) | ('node', atom, if_true, if_false)"""
+    if len(script) > 24:
+        raise Unsupported("too many nested decisions")
+    ex = make(script)
+    try:
+        try:
+            ex.go()
+            out = ("end", None)
+        except ReturnEx as r:
+            out = ("return", r.value)
+        except ThrowEx:
+            out = ("throw", None)
+        return ("leaf", ex, out)
+    except NeedChoice as nc:
+        return ("node", nc.atom, explore(make, tuple(script) + (True,)), explore(make, tuple(script) + (False,)))
+
+
+def leaves(tree, path=()):
+    if tree[0] == "leaf":
+        yield path, tree[1], tree[2]
+    else:
+        for x in leaves(tree[2], path + ((tree[1], True),)):
+            yield x
+        for x in leaves(tree[3], path + ((tree[1], False),)):
+            yield x
+
+
+def run_body(body_src, env, what, upto=None):
+    """parse a function body and enumerate its paths with the parameters bound as in `env`"""
+    try:
+        prog = CParser(body_src).program()
+    except CParseError as e:
+        raise TranslateError("%s: %s" % (what, e))
+    if upto is not None:
+        prog = upto(prog)
+
+    def make(script):
+        ex = Exec(script)
+        ex.scopes = [dict(env), {}]
+        ex.go = lambda: ex.run(prog)
+        return ex
+    try:
+        return prog, explore(make)
+    except NeedInit as e:
+        raise TranslateError("%s: name %s is not known here" % (what, e.name))
+    except Unsupported as e:
+        raise TranslateError("%s: %s" % (what, e))
+
+
+
+# ------------------------------------------------------------------------------------------------
+# round 5: semantic extraction on top of the front end
+# ------------------------------------------------------------------------------------------------
+_RD = Exec()
+MAT = ("sym", "matrix")
+NORM = ("methv", MAT, "infinity_norm", ())
+ISNORMAL = ("callv", "isnormal", (NORM,))
+
+
+def is_int(v):
+    return isinstance(v, int) and not isinstance(v, bool)
+
+
+def num_value(v):
+    """numeric literal value (int or decimal) as Fraction, else None"""
+    if is_int(v):
+        return Fraction(v)
+    if isinstance(v, tuple) and v[0] == "num":
+        return v[1]
+    return None
+
+
+def to_lean(v, atoms, what):
+    """symbolic scalar -> Lean term, printed like `tr` does; `atoms(v)` names the leaves (returns None if unknown)"""
+    nm = atoms(v)
+    if nm is not None:
+        return nm
+    f = num_value(v)
+    if f is not None:
+        if f < 0:
+            return "(-%s)" % lit(str(-f))
+        return lit(str(f))
+    if isinstance(v, tuple) and v[0] == "op" and v[1] in "+-*/":
+        return "(%s %s %s)" % (to_lean(v[2], atoms, what), v[1], to_lean(v[3], atoms, what))
+    if isinstance(v, tuple) and v[0] == "neg":
+        return "(-%s)" % to_lean(v[1], atoms, what)
+    if isinstance(v, tuple) and v[0] == "callv" and len(v[2]) == 1 and atoms(("fun", v[1])) is not None:
+        return "(%s %s)" % (atoms(("fun", v[1])), to_lean(v[2][0], atoms, what))
+    raise TranslateError(("%s: value %r outside the expression grammar" % (what, v))[:300])
+
+
+def precondition_scale(path, S, what):
+    """the max-norm preconditioning as a *state*: on the path where `isnormal(matrix.infinity_norm())` holds the routine
+    works on matrix / matrix.infinity_norm(), otherwise on matrix / 1.  Returns (preconditioned?, the divisor M)."""
+    dec = dict(path)
+    if ISNORMAL in dec:
+        M = NORM if dec[ISNORMAL] else None
+        if M is None:
+            if not (isinstance(S, tuple) and S[0] == "op" and S[1] == "/" and S[2] == MAT and num_value(S[3]) == 1):
+                raise TranslateError("%s: for a matrix whose norm is not normal the closed form does not run on matrix / 1" % what)
+            return True, S[3]
+        if S != ("op", "/", MAT, NORM):
+            raise TranslateError("%s: the closed form does not run on matrix / matrix.infinity_norm()" % what)
+        return True, NORM
+    if S != MAT:
+        raise TranslateError("%s: the closed form runs neither on the matrix nor on its max-norm scaling" % what)
+    return False, None
+
+
+def analyse_2x2(v2):
+    """2x2 eigenValuesVectorsImpl, eigenvector job: every path of the routine is executed symbolically.  Returns
+    (preconditioned, shift index, threshold term, [[col0, col1] for vector 0, for vector 1] as pairs of Lean terms, comments)"""
+    what = "2x2"
+    env = {"matrix": MAT, "eigenValues": ("sym", "eigenValues0"), "eigenVectors": ("sym", "eigenVectors0"),
+           "Tag": ("sym", "EigenvaluesEigenvectors"), "EigenvaluesEigenvectors": ("sym", "EigenvaluesEigenvectors")}
+    prog, tree = run_body(v2, env, "2x2 eigenValuesVectorsImpl")
+    pre_all, shift_all, thr_all = set(), set(), set()
+    picks = {}                                       # (isnormal decision, vector) -> {(A, B)}: A wins ties
+    n_ident = n_cols = 0
+    for path, ex, out in leaves(tree):
+        if out[0] != "end":
+            raise TranslateError("2x2: the routine returns or throws on some path")
+        calls = [t for t in ex.trace if t[0] == "call"]
+        if len(calls) != 1 or calls[0][1] != "eigenValues2dImpl" or calls[0][2][1] != ("sym", "eigenValues0"):
+            raise TranslateError("2x2: eigenValues2dImpl is not called exactly once on the caller's eigenvalue vector")
+        S = calls[0][2][0]
+        pre, M = precondition_scale(path, S, "2x2")
+        pre_all.add(pre)
+        EV = ("out", "eigenValues2dImpl", 1, ex.trace.index(calls[0]), (S,))
+        if ex.get("eigenValues") != (("op", "*", EV, M) if pre else EV):
+            raise TranslateError("2x2: preconditioning and its reversal do not match")
+
+        def atoms(v, S=S, EV=EV):
+            if isinstance(v, tuple) and v[0] == "idxv" and isinstance(v[1], tuple) and v[1][0] == "idxv" and v[1][1] == S:
+                return "m%d%d" % (v[1][2], v[2])
+            if isinstance(v, tuple) and v[0] == "idxv" and v[1] == EV:
+                return "l%d" % v[2]
+            if v == ("sym", "eps"):
+                return "eps"
+            if v == ("methv", S, "infinity_norm", ()):
+                return "normA"
+            return None
+        rest = [(a, b) for a, b in path if a != ISNORMAL]
+        if not rest:
+            raise TranslateError("2x2: no identity test on some path")
+        ident, ident_true = rest[0]
+        # the identity test: || S - l_k I ||_inf <= threshold
+        if not (ident[0] == "le" and isinstance(ident[1], tuple) and ident[1][0] == "methv" and ident[1][2] == "infinity_norm"):
+            raise TranslateError("2x2: the first decision of the eigenvector part is not `temp.infinity_norm() <= threshold`")
+        T = ident[1][1]
+        ks = set()
+        for i in (0, 1):
+            for j in (0, 1):
+                tij = _RD.read(_RD.read(T, i), j)
+                sij = ("idxv", ("idxv", S, i), j)
+                if i != j:
+                    if tij != sij:
+                        raise TranslateError("2x2: the identity test changes an off-diagonal entry")
+                elif isinstance(tij, tuple) and tij[:3] == ("op", "-", sij) and isinstance(tij[3], tuple) and tij[3][0] == "idxv" and tij[3][1] == EV:
+                    ks.add(tij[3][2])
+                else:
+                    raise TranslateError("2x2: the identity test does not shift the diagonal by an eigenvalue")
+        if len(ks) != 1:
+            raise TranslateError("2x2: the two diagonal shifts use different eigenvalues")
+        shift_all.add(ks.pop())
+        thr_all.add(to_lean(ident[2], atoms, "2x2 identity threshold"))
+        vecs = ex.get("eigenVectors")
+        if ident_true:
+            n_ident += 1
+            for i in (0, 1):
+                row = _RD.read(vecs, i)
+                if not (isinstance(row, tuple) and row[0] == "initv" and [num_value(x) for x in row[1]] == [Fraction(int(i == 0)), Fraction(int(i == 1))]):
+                    raise TranslateError("2x2: identity branch does not assign the unit vectors")
+            if len(rest) != 1:
+                raise TranslateError("2x2: further decisions in the identity branch")
+            continue
+        n_cols += 1
+        if len(rest) != 3:
+            raise TranslateError("2x2: the general branch does not make exactly two column choices")
+        for vi in (0, 1):
+            val = _RD.read(vecs, vi)
+            if not (isinstance(val, tuple) and val[0] == "op" and val[1] == "/" and val[3] == ("methv", val[2], "two_norm", ())
+                    and isinstance(val[2], tuple) and val[2][0] == "initv" and len(val[2][1]) == 2):
+                raise TranslateError("2x2: eigenVectors[%d] is not a candidate column divided by its two_norm()" % vi)
+            C = val[2]
+            found = None
+            for at, b in rest[1:]:
+                if at[0] == "le" and all(isinstance(x, tuple) and x[0] == "methv" and x[2] == "two_norm2" for x in at[1:3]):
+                    B_, A_ = at[1][1], at[2][1]          # le(|B|^2, |A|^2): true -> A (A wins ties)
+                    if C == (A_ if b else B_) and C != (B_ if b else A_):
+                        found = (A_, B_)
+                        break
+            if found is None:
+                raise TranslateError("2x2: eigenVectors[%d] is not chosen by comparing the squared norms of two columns (first one on ties)" % vi)
+            picks.setdefault((dict(path).get(ISNORMAL), vi), set()).add(found)
+    if len(pre_all) != 1 or len(shift_all) != 1 or len(thr_all) != 1 or not n_ident or not n_cols:
+        raise TranslateError("2x2: the paths of the routine disagree about preconditioning / shift / threshold")
+    for key in picks:
+        if len(picks[key]) != 1:
+            raise TranslateError("2x2: the column choice for eigenVectors[%d] depends on more than one comparison" % key[1])
+    return prog, tree, pre_all.pop(), shift_all.pop(), thr_all.pop(), picks
+
+
+def cols_to_lean(v2):
+    """the four candidate columns as Lean terms (per vector: the tie winner first), identical on all paths"""
+    prog, tree, pre, shift, thr, picks = analyse_2x2(v2)
+    out = {}
+    for (isn, vi), st in picks.items():
+        A_, B_ = list(st)[0]
+        # names: entries of the matrix the closed form ran on, and its eigenvalues
+        def atoms(v):
+            if isinstance(v, tuple) and v[0] == "idxv" and isinstance(v[1], tuple) and v[1][0] == "idxv" and \
+                    (v[1][1] == MAT or (isinstance(v[1][1], tuple) and v[1][1][:3] == ("op", "/", MAT))):
+                return "m%d%d" % (v[1][2], v[2])
+            if isinstance(v, tuple) and v[0] == "idxv" and isinstance(v[1], tuple) and v[1][0] == "out" and v[1][1] == "eigenValues2dImpl":
+                return "l%d" % v[2]
+            return None
+        terms = tuple(tuple(to_lean(x, atoms, "2x2 candidate column") for x in C[1]) for C in (A_, B_))
+        out.setdefault(vi, set()).add(terms)
+    for vi in (0, 1):
+        if len(out.get(vi, ())) != 1:
+            raise TranslateError("2x2: the candidate columns of eigenVectors[%d] differ between the paths" % vi)
+    return pre, shift, thr, [list(out[0])[0], list(out[1])[0]]
+
+
+def analyse_3x3_prefix(v3):
+    """the statements of the 3x3 routine before the eigenvector part: max-norm preconditioning as a state, the call of
+    eigenValues3dImpl on the scaled matrix; the names the remaining literal rules rely on must denote these values"""
+    def upto(prog):
+        out = []
+        for s in prog:
+            if s[0] == "if":
+                break
+            out.append(s)
+        return out
+    env = {"matrix": MAT, "eigenValues": ("sym", "eigenValues0"), "eigenVectors": ("sym", "eigenVectors0")}
+    prog, tree = run_body(v3, env, "3x3 eigenValuesVectorsImpl", upto)
+    n = 0
+    for path, ex, out in leaves(tree):
+        n += 1
+        calls = [t for t in ex.trace if t[0] == "call"]
+        if out[0] != "end" or len(calls) != 1 or calls[0][1] != "eigenValues3dImpl" or calls[0][2][1] != ("sym", "eigenValues0"):
+            raise TranslateError("3x3: max-norm preconditioning changed (eigenValues3dImpl is not called once on the caller's vector)")
+        S = calls[0][2][0]
+        pre, M = precondition_scale(path, S, "3x3")
+        if not pre:
+            raise TranslateError("3x3: max-norm preconditioning changed")
+        try:
+            ok = (ex.get("scaledMatrix") == S and ex.get("r") == ("callv", "eigenValues3dImpl", (S,)) and ex.get("maxAbsElement") == M)
+        except NeedInit:
+            ok = False
+        if not ok:
+            raise TranslateError("3x3: scaledMatrix / r / maxAbsElement do not name the scaled matrix, the result of eigenValues3dImpl and the scale")
+    if n != 2:
+        raise TranslateError("3x3: max-norm preconditioning changed (unexpected decisions)")
+
+
+def subterms(v):
+    yield v
+    if isinstance(v, tuple):
+        for x in v[1:]:
+            if isinstance(x, tuple):
+                for y in subterms(x):
+                    yield y
+
+
+def analyse_eig0(e0, mat, evn, outv):
+    """eig0 by execution, identified by value (no local needs a particular name, or to exist): the result on every path
+    is `crossProduct(rowA, rowB) / crossProduct(rowC, rowD).two_norm()`, every decision compares two such lengths.
+    Rows are numbered by the row of the matrix they hold, cross products by their (row, row) pair in ascending order.
+    Returns (rows as Lean triples, cross pairs, selection tree)"""
+    env = {mat: MAT, evn: ("sym", "eval0"), outv: ("sym", "evec0_in")}
+    prog, tree = run_body(e0, env, "eig0")
+
+    def is_cross(c):
+        return isinstance(c, tuple) and c[0] == "callv" and c[1] == "crossProduct" and len(c[2]) == 2 and \
+            all(isinstance(r, tuple) and r[0] == "initv" and len(r[1]) == 3 for r in c[2])
+
+    def is_len(x):
+        return isinstance(x, tuple) and x[0] == "methv" and x[2] == "two_norm" and x[3] == () and is_cross(x[1])
+    found = []
+
+    def scan(t):
+        if t[0] == "leaf":
+            ex, outc = t[1], t[2]
+            if outc[0] not in ("end", "return") or outc[1] is not None:
+                raise TranslateError("eig0: a path throws or returns a value")
+            v = ex.get(outv)
+            if not (isinstance(v, tuple) and v[0] == "op" and v[1] == "/" and is_cross(v[2]) and is_len(v[3])):
+                raise TranslateError("eig0: the result is not a cross product of two rows divided by the length of one")
+            found.extend([v[2], v[3][1]])
+        else:
+            at = t[1]
+            if at[0] not in ("lt", "le") or not is_len(at[1]) or not is_len(at[2]):
+                raise TranslateError(("eig0: decision %r is not a comparison of two lengths" % (at,))[:300])
+            found.extend([at[1][1], at[2][1]])
+            scan(t[2])
+            scan(t[3])
+    scan(tree)
+
+    def row_index(r):
+        ij = [[(y[1][2], y[2]) for y in subterms(c) if isinstance(y, tuple) and y[0] == "idxv" and isinstance(y[1], tuple)
+               and y[1][0] == "idxv" and y[1][1] == MAT] for c in r[1]]
+        if any(len(x) != 1 for x in ij) or len(set(x[0][0] for x in ij)) != 1 or [x[0][1] for x in ij] != [0, 1, 2]:
+            raise TranslateError("eig0: a vector entering a cross product is not a row of matrix - eval0*I")
+        return ij[0][0][0]
+    rows = {}
+    for c in found:
+        for r in c[2]:
+            k = row_index(r)
+            if rows.setdefault(k, r) != r:
+                raise TranslateError("eig0: two different vectors hold row %d" % k)
+    if sorted(rows) != [0, 1, 2]:
+        raise TranslateError("eig0: expected three row definitions")
+    pair = lambda c: (row_index(c[2][0]), row_index(c[2][1]))
+    CR = sorted(set(found), key=pair)
+    if len(CR) != 3 or len(set(pair(c) for c in CR)) != 3:
+        raise TranslateError("eig0: expected three cross products of rows")
+    D = [("methv", c, "two_norm", ()) for c in CR]
+
+    def atoms(v):
+        if isinstance(v, tuple) and v[0] == "idxv" and isinstance(v[1], tuple) and v[1][0] == "idxv" and v[1][1] == MAT:
+            return "m%d%d" % (v[1][2], v[2])
+        if v == ("sym", "eval0"):
+            return "eval0"
+        return None
+
+    def conv(t):
+        if t[0] == "leaf":
+            v = t[1].get(outv)
+            return "(.leaf %d %d)" % (CR.index(v[2]), D.index(v[3]))
+        a, b = conv(t[2]), conv(t[3])
+        if a == b:
+            return a
+        return "(.%s %d %d %s %s)" % (t[1][0], D.index(t[1][1]), D.index(t[1][2]), a, b)
+    sel = conv(tree)
+    return ([[to_lean(x, atoms, "eig0 row") for x in rows[k][1]] for k in (0, 1, 2)], [pair(c) for c in CR],
+            sel[1:-1] if sel.startswith("(") else sel)
+
+
+# ---- copy loops around the LAPACK calls: executed for concrete orders ------------------------------------------------
+LOOP_ORDERS = (1, 2, 3, 4, 5)
+
+
+def walk_stmts(stmts, anc=()):
+    """yield (statement, ancestors) for every statement; ancestors = ((list, index), ...) outermost first"""
+    for k, s in enumerate(stmts):
+        here = anc + ((stmts, k),)
+        yield s, here
+        if s[0] == "block":
+            for x in walk_stmts(s[1], here):
+                yield x
+        elif s[0] == "if":
+            for br in (s[2], s[3]):
+                if br is not None:
+                    for x in walk_stmts(br[1] if br[0] == "block" else [br], here):
+                        yield x
+
+
+def int_init_before(anc, name, what):
+    """the nearest statement before the loop (same block, then enclosing blocks) that mentions `name` must set it to an
+    integer literal"""
+    for stmts, k in reversed(anc):
+        for j in range(k - 1, -1, -1):
+            s = stmts[j]
+            if name not in ast_ids(s):
+                continue
+            if s[0] == "decl" and s[1] == name and s[2] is not None and s[2][0] == "num" and re.match(r"^[0-9]+$", s[2][1]) and "array" not in s[3]:
+                return s
+            if s[0] == "expr" and s[1][0] == "asg" and s[1][1] == "=" and s[1][2] == ("id", name) and s[1][3][0] == "num" and re.match(r"^[0-9]+$", s[1][3][1]):
+                return ("decl", name, s[1][3], frozenset(), None, "int")
+            raise TranslateError("%s: cannot tell the value of %s at the loop" % (what, name))
+    raise TranslateError("%s: %s is not initialised before the loop" % (what, name))
+
+
+def run_loop(loop, anc, n, dimnames, bufs, extra, what):
+    """execute one outermost `for` statement for order n.  bufs: name -> size expression (python function of n) of the
+    flat arrays, pre-filled with symbolic cells.  Returns the executor (its heap / environment hold the result)."""
+    inits = []
+    for attempt in range(6):
+        ex = Exec(())
+        env = {"matrix": MAT}
+        for d in dimnames:
+            env[d] = n
+        env.update(extra)
+        ex.scopes = [env, {}]
+        handles = {}
+        for b, size in bufs.items():
+            h = ex.alloc(size(n), ("sym", "buf:" + b))
+            env[b] = h
+            handles[b] = h
+        try:
+            ex.run(inits + [loop])
+            return ex, handles
+        except NeedInit as e:
+            if any(d[1] == e.name for d in inits):
+                raise TranslateError("%s: %s is not known at the loop" % (what, e.name))
+            inits.append(int_init_before(anc, e.name, what))
+        except NeedChoice as e:
+            raise TranslateError("%s: the loop depends on %r" % (what, e.atom))
+        except (ReturnEx, ThrowEx):
+            raise TranslateError("%s: the loop returns or throws" % what)
+        except Unsupported as e:
+            raise TranslateError("%s: %s" % (what, e))
+    raise TranslateError("%s: too many unknown names at the loop" % what)
+
+
+def loops_of(body, what):
+    try:
+        prog = CParser(body).program()
+    except CParseError as e:
+        raise TranslateError("%s: %s" % (what, e))
+    return [(s, anc) for s, anc in walk_stmts(prog) if s[0] == "for" and not any(st[k][0] == "for" for st, k in anc[:-1])]
+
+
+def pack_orientation_sem(body, dimnames, buf, what):
+    """orientation of the copy into the flat LAPACK array `buf`, whatever the spelling of the loops (running counter,
+    computed index, renamed / exchanged loop variables, count-down ...): the loops that store into `buf` are executed
+    for the orders 1..5 and the final content must be, for every order, buf[n*i+j] = matrix[i][j] (False) or
+    matrix[j][i] (True) for all i, j < n."""
+    cands = [(s, anc) for s, anc in loops_of(body, what) if buf in ast_ids(s) and "matrix" in ast_ids(s)]
+    if len(cands) != 1:
+        raise TranslateError("%s: copy loop into the LAPACK array: expected exactly one loop nest, found %d" % (what, len(cands)))
+    res = set()
+    for n in LOOP_ORDERS:
+        ex, h = run_loop(cands[0][0], cands[0][1], n, dimnames, {buf: lambda n: n * n}, {}, what + ": copy loop")
+        cell = ex.heap[h[buf][1]]
+        for tr_ in (False, True):
+            if all(cell.get(n * i + j) == ("idxv", ("idxv", MAT, j if tr_ else i), i if tr_ else j) for i in range(n) for j in range(n)):
+                res.add(tr_) if n > 1 else None
+                break
+        else:
+            raise TranslateError("%s: for order %d the copy loop fills the LAPACK array neither row by row nor column by column" % (what, n))
+    if len(res) != 1:
+        raise TranslateError("%s: the orientation of the copy loop depends on the order" % what)
+    return res.pop()
+
+
+def copyback_sym_sem(body, buf, what):
+    """copy-back of the symmetric routine: eigenVectors[i][j] = buf[n*i+j] (False) or eigenVectors[j][i] = buf[n*i+j] (True)"""
+    cands = [(s, anc) for s, anc in loops_of(body, what) if buf in ast_ids(s) and "eigenVectors" in ast_ids(s)]
+    if len(cands) != 1:
+        raise TranslateError("%s: copy-back loop: expected exactly one loop nest, found %d" % (what, len(cands)))
+    s, anc = cands[0]
+    # the loop must be guarded by the eigenvector job (and by nothing else)
+    guards = [st[k] for st, k in anc[:-1] if st[k][0] == "if"]
+    ok = len(guards) == 1 and guards[0][3] is None and guards[0][1][0] == "bin" and guards[0][1][1] == "==" and \
+        {guards[0][1][2], guards[0][1][3]} in ({("id", "Tag"), ("id", "Jobs::EigenvaluesEigenvectors")}, {("id", "Tag"), ("id", "EigenvaluesEigenvectors")})
+    if not ok:
+        raise TranslateError("%s: copy-back loop is not guarded by `Tag == EigenvaluesEigenvectors` alone" % what)
+    res = set()
+    for n in LOOP_ORDERS:
+        ex, h = run_loop(s, anc, n, ("dim", "N"), {buf: lambda n: n * n}, {"eigenVectors": ("sym", "eigenVectors0")}, what + ": copy-back loop")
+        V = ex.get("eigenVectors")
+        B = ("sym", "buf:" + buf)
+        for tr_ in (False, True):
+            try:
+                good = all(_RD.read(_RD.read(V, j if tr_ else i), i if tr_ else j) == ("idxv", B, n * i + j) for i in range(n) for j in range(n))
+            except Unsupported:
+                good = False
+            if good:
+                res.add(tr_) if n > 1 else None
+                break
+        else:
+            raise TranslateError("%s: for order %d the copy-back does not fill eigenVectors from the LAPACK array row by row or column by column" % (what, n))
+    if len(res) != 1:
+        raise TranslateError("%s: the orientation of the copy-back depends on the order" % what)
+    return res.pop()
+
+
+def copyback_dyn_sem(body, vrn, what):
+    """dynamic routine: inside `if (eigenVectors)`, after `eigenVectors->resize(N)`: vector i (resized to N) receives
+    vr[N*i .. N*(i+1)) -- std::copy / std::copy_n / a hand loop over a pointer or an index"""
+    cands = [(s, anc) for s, anc in loops_of(body, what) if vrn in ast_ids(s) and "eigenVectors" in ast_ids(s)]
+    if len(cands) != 1:
+        raise TranslateError("%s: copy-back: expected exactly one loop over the eigenvectors, found %d" % (what, len(cands)))
+    s, anc = cands[0]
+    guards = [st[k] for st, k in anc[:-1] if st[k][0] == "if"]
+    if not (len(guards) == 1 and guards[0][3] is None and guards[0][1] == ("id", "eigenVectors")):
+        raise TranslateError("%s: copy-back is not guarded by `if (eigenVectors)` alone" % what)
+    for n in LOOP_ORDERS:
+        ex, h = run_loop(s, anc, n, ("N",), {vrn: lambda n: n * n}, {"eigenVectors": ("sym", "eigenVectors0")}, what + ": copy-back")
+        V = ex.get("eigenVectors")
+        B = ("sym", "buf:" + vrn)
+        try:
+            good = all(_RD.read(_RD.read(V, i), k) == ("idxv", B, n * i + k) for i in range(n) for k in range(n))
+        except Unsupported:
+            good = False
+        sized = set(t[1] for t in ex.trace if t[0] == "resize" and t[2] == (n,))
+        if not good or len(sized) != n:
+            raise TranslateError("%s: for order %d vector i is not resized to N and filled from vr[N*i .. N*(i+1))" % (what, n))
+    return True
+
+
+
+def analyse_orthoComp(oc, en, un, vn):
+    """orthoComp by execution: one decision `abs(e[i]) > abs(e[j])` (canonical: abs(e[j]) < abs(e[i])); on both sides
+    u = (1 / two_norm(temp)) * {..} and v = crossProduct(evec0, u).  Returns ((i, j), [(temp comps, u comps) for the
+    true side, for the false side])"""
+    E = ("sym", "evec0")
+    prog, tree = run_body(oc, {en: E, un: ("sym", "u_in"), vn: ("sym", "v_in")}, "orthoComp")
+    if tree[0] != "node" or tree[2][0] != "leaf" or tree[3][0] != "leaf":
+        raise TranslateError("orthoComp: the body does not make exactly one decision")
+    at = tree[1]
+
+    def comp(x):
+        if isinstance(x, tuple) and x[0] == "callv" and x[1] == "abs" and len(x[2]) == 1 and isinstance(x[2][0], tuple) \
+                and x[2][0][0] == "idxv" and x[2][0][1] == E and x[2][0][2] in (0, 1, 2):
+            return x[2][0][2]
+        return None
+    if at[0] != "lt" or comp(at[1]) is None or comp(at[2]) is None:
+        raise TranslateError("orthoComp: the decision is not `abs(evec0[i]) > abs(evec0[j])`")
+    cond = (comp(at[2]), comp(at[1]))
+
+    def atoms(v):
+        if isinstance(v, tuple) and v[0] == "idxv" and v[1] == E:
+            return "e%d" % v[2]
+        return None
+    sides = []
+    for tag, lf in (("A", tree[2]), ("B", tree[3])):
+        ex, outc = lf[1], lf[2]
+        if outc[0] not in ("end", "return") or outc[1] is not None:
+            raise TranslateError("orthoComp: branch %s throws or returns a value" % tag)
+        u, v = ex.get(un), ex.get(vn)
+        if not (isinstance(u, tuple) and u[0] == "op" and u[1] == "*"):
+            raise TranslateError("orthoComp: branch %s: u is not a scaled vector" % tag)
+        L, vec = (u[2], u[3]) if isinstance(u[3], tuple) and u[3][0] == "initv" else (u[3], u[2])
+        if not (isinstance(vec, tuple) and vec[0] == "initv" and len(vec[1]) == 3 and isinstance(L, tuple) and L[0] == "op" and L[1] == "/"
+                and num_value(L[2]) == 1 and isinstance(L[3], tuple) and L[3][0] == "methv" and L[3][2] == "two_norm"
+                and isinstance(L[3][1], tuple) and L[3][1][0] == "initv" and len(L[3][1][1]) == 2):
+            raise TranslateError("orthoComp: branch %s does not normalise u by 1 / two_norm() of a 2-vector" % tag)
+        if v != ("callv", "crossProduct", (E, u)):
+            raise TranslateError("orthoComp: v is not crossProduct(%s, %s)" % (en, un))
+        sides.append(([to_lean(x, atoms, "orthoComp temp") for x in L[3][1][1]], [to_lean(x, atoms, "orthoComp u") for x in vec[1]]))
+    return cond, sides
+
+
+def analyse_crossProduct(cp):
+    """the three components of the value crossProduct returns (a returned initialiser list or a local filled entry by entry)"""
+    A, B = ("sym", "vec0"), ("sym", "vec1")
+    prog, tree = run_body(cp, {"vec0": A, "vec1": B}, "crossProduct")
+    if tree[0] != "leaf" or tree[2][0] != "return" or tree[2][1] is None:
+        raise TranslateError("crossProduct: the body is not straight-line code returning a value")
+
+    def atoms(v):
+        if isinstance(v, tuple) and v[0] == "idxv" and v[1] in (A, B) and v[2] in (0, 1, 2):
+            return ("a%d" if v[1] == A else "b%d") % v[2]
+        return None
+    val = tree[2][1]
+    if isinstance(val, tuple) and val[0] == "initv" and len(val[1]) != 3:
+        raise TranslateError("crossProduct does not return three components")
+    try:
+        return [to_lean(_RD.read(val, k), atoms, "crossProduct") for k in range(3)]
+    except Unsupported as e:
+        raise TranslateError("crossProduct: %s" % e)
+
+
+
+def analyse_eig1(e1, en, outn, evn):
+    """eig1 by execution: u, v from orthoComp(evec0, u, v); Au, Av by matrix.mv; the reduced matrix; the decisions
+    `|m00| >= |m11|`, `max(|mdd|, |m01|) > 0`, `|mdd| >= |m01|` (canonical atoms, any spelling) and on every path
+    evec1 = a*u - b*v or evec1 = u.  Returns (m00, m01, m11 as Lean terms over uAu uAv vAv eval1, {leaf name: (a, b)})"""
+    E0 = ("sym", "evec0")
+    prog, tree = run_body(e1, {"matrix": MAT, en: E0, outn: ("sym", "evec1_in"), evn: ("sym", "eval1")}, "eig1")
+    first = next(leaves(tree))[1]
+    oc = [t for t in first.trace if t[0] == "call"]
+    if len(oc) != 1 or oc[0][1] != "orthoComp" or oc[0][2][0] != E0:
+        raise TranslateError("eig1: u, v are not set up by one call orthoComp(evec0, u, v)")
+    U = ("out", "orthoComp", 1, first.trace.index(oc[0]), (E0,))
+    V = ("out", "orthoComp", 2, first.trace.index(oc[0]), (E0,))
+    AU, AV = ("methv", MAT, "mv", (U,)), ("methv", MAT, "mv", (V,))
+    dots = {("methv", U, "dot", (AU,)): "uAu", ("methv", U, "dot", (AV,)): "uAv", ("methv", V, "dot", (AV,)): "vAv"}
+
+    def atoms_d(v):
+        if v in dots:
+            return dots[v]
+        if v == ("sym", "eval1"):
+            return "eval1"
+        return None
+
+    def absarg(x):
+        if isinstance(x, tuple) and x[0] == "callv" and x[1] == "abs" and len(x[2]) == 1:
+            return x[2][0]
+        raise TranslateError("eig1: the branch structure does not compare absolute values")
+    if tree[0] != "node" or tree[1][0] != "le":
+        raise TranslateError("eig1: the first decision is not `abs(m00) >= abs(m11)`")
+    M11, M00 = absarg(tree[1][1]), absarg(tree[1][2])
+    res = {}
+    M01s = set()
+    for tag, sub, Md in (("0", tree[2], M00), ("1", tree[3], M11)):
+        if sub[0] != "node" or sub[1][0] != "lt" or sub[1][1] != 0 or not (isinstance(sub[1][2], tuple) and sub[1][2][:2] == ("callv", "max")
+                                                                           and len(sub[1][2][2]) == 2 and absarg(sub[1][2][2][0]) == Md):
+            raise TranslateError("eig1: outer branch %s does not test `max(abs(m%s), abs(m01)) > 0`" % (tag, "00" if tag == "0" else "11"))
+        M01 = absarg(sub[1][2][2][1])
+        M01s.add(M01)
+        inner, zero = sub[2], sub[3]
+        if zero[0] != "leaf" or zero[2][0] not in ("end", "return") or zero[1].get(outn) != U:
+            raise TranslateError("eig1: outer branch %s does not return u for a vanishing reduced matrix" % tag)
+        if inner[0] != "node" or inner[1] != ("le", ("callv", "abs", (M01,)), ("callv", "abs", (Md,))) or inner[2][0] != "leaf" or inner[3][0] != "leaf":
+            raise TranslateError("eig1: outer branch %s does not decide by `abs(mdd) >= abs(m01)`" % tag)
+
+        def atoms_m(v, M01=M01):
+            if v == M00:
+                return "m00"
+            if v == M11:
+                return "m11"
+            if v == M01:
+                return "m01"
+            if v == ("fun", "sqrt"):
+                return "sqrt"
+            return None
+        for sub_, lf in (("a", inner[2]), ("b", inner[3])):
+            val = lf[1].get(outn)
+            if lf[2][0] not in ("end", "return") or not (isinstance(val, tuple) and val[:2] == ("op", "-") and all(
+                    isinstance(x, tuple) and x[:2] == ("op", "*") for x in val[2:4]) and val[2][3] == U and val[3][3] == V):
+                raise TranslateError("eig1: leaf %s%s: evec1 is not a*u - b*v" % (tag, sub_))
+            res[tag + sub_] = (to_lean(val[2][2], atoms_m, "eig1 coefficient"), to_lean(val[3][2], atoms_m, "eig1 coefficient"))
+    if len(M01s) != 1 or len({M00, M11, list(M01s)[0]}) != 3:
+        raise TranslateError("eig1: the two outer branches use different off-diagonal entries")
+    return [to_lean(x, atoms_d, "eig1 reduced matrix") for x in (M00, list(M01s)[0], M11)], res
+
+
+
+def analyse_diag_network(dg):
+    """the diagonal special case of the 3x3 routine by execution: on every path the final eigenValues / eigenVectors are
+    those of the network (0,1),(1,2),(0,1) (`if (v[a] > v[b]) swap values and vectors a, b`) started from the diagonal of
+    scaledMatrix and the coordinate vectors, under the same outcomes of the same comparisons; no other decision is made"""
+    S = ("sym", "scaledMatrix")
+    prog, tree = run_body(dg, {"scaledMatrix": S, "eigenValues": ("sym", "eigenValues_in"), "eigenVectors": ("sym", "eigenVectors_in")},
+                          "3x3 diagonal special case")
+    n = 0
+    for path, ex, outc in leaves(tree):
+        n += 1
+        if outc[0] not in ("end", "return") or outc[1] is not None:
+            raise TranslateError("3x3 diagonal special case: a path throws or returns a value")
+        dec = dict(path)
+        rv = [("idxv", ("idxv", S, k), k) for k in range(3)]
+        rvec = [[Fraction(int(i == k)) for i in range(3)] for k in range(3)]
+        used = set()
+        for a, b in ((0, 1), (1, 2), (0, 1)):
+            at = ("lt", rv[b], rv[a])
+            if at not in dec:
+                raise TranslateError("3x3 diagonal special case: a path does not compare what the sort network compares")
+            used.add(at)
+            if dec[at]:
+                rv[a], rv[b] = rv[b], rv[a]
+                rvec[a], rvec[b] = rvec[b], rvec[a]
+        if used != set(dec):
+            raise TranslateError("3x3 diagonal special case: decisions beyond the three comparisons of the sort network")
+        try:
+            vals = [_RD.read(ex.get("eigenValues"), k) for k in range(3)]
+            vecs = [[num_value(_RD.read(_RD.read(ex.get("eigenVectors"), k), i)) for i in range(3)] for k in range(3)]
+        except Unsupported as e:
+            raise TranslateError("3x3 diagonal special case: %s" % e)
+        if vals != rv or vecs != rvec:
+            raise TranslateError("3x3 diagonal special case: some path does not end in the state of the network (0,1),(1,2),(0,1)")
+    if n < 4:
+        raise TranslateError("3x3 diagonal special case: fewer paths than the sort network has")
+
+
 def translate_tables(repo, src):
     out = ["-- GENERATED by tools/translators/tr_c08.py from dune/common/fmatrixev.hh and dynmatrixev.hh -- do not edit",
            "set_option linter.unusedVariables false",
@@ -285,70 +1889,22 @@ def translate_tables(repo, src):
     hdr = one(r"void\s+eig0\s*\(\s*const\s+FieldMatrix\s*<\s*K\s*,\s*3\s*,\s*3\s*>\s*&\s*(\w+)\s*,\s*K\s+(\w+)\s*,\s*FieldVector\s*<\s*K\s*,\s*3\s*>\s*&\s*(\w+)\s*\)",
               src, "eig0 signature")
     mat, evn, outv = hdr
-    rows = re.findall(r"Vector\s+(\w+)\s*=\s*\{([^}]*)\}\s*;", e0)
-    if len(rows) != 3:
-        raise TranslateError("eig0: expected three row definitions")
-    rown = [r[0] for r in rows]
+    rows3, cpairs, sel = analyse_eig0(e0, mat, evn, outv)
     out.append("section\nvariable {K : Type} [Add K] [Sub K] [Mul K] [Div K] [Neg K] [NatCast K]\n")
-    for k, (nm, txt) in enumerate(rows):
-        comps = tr_list(txt.replace(mat + "[", "matrix[").replace(evn, "eval0"), M3 + ["eval0"])
-        if len(comps) != 3:
-            raise TranslateError("eig0: row is not a triple")
-        out.append("/-- `Vector %s = {%s};` -/\ndef eig0_row%d (m00 m01 m02 m10 m11 m12 m20 m21 m22 eval0 : K) : K × K × K :=\n  (%s, %s, %s)\n"
-                   % (nm, txt.strip(), k, comps[0], comps[1], comps[2]))
+    for k, comps in enumerate(rows3):
+        out.append("/-- row %d of `matrix - eval0*I` as it enters the cross products -/\ndef eig0_row%d (m00 m01 m02 m10 m11 m12 m20 m21 m22 eval0 : K) : K × K × K :=\n  (%s, %s, %s)\n"
+                   % (k, k, comps[0], comps[1], comps[2]))
     out.append("end\n")
-    crs = re.findall(r"Vector\s+(\w+)\s*=\s*crossProduct\s*\(\s*(\w+)\s*,\s*(\w+)\s*\)\s*;", e0)
-    if len(crs) != 3 or any(a not in rown or b not in rown for _, a, b in crs):
-        raise TranslateError("eig0: expected three cross products of rows")
-    crn = [c[0] for c in crs]
-    out.append("/-- `%s` : cross product k is taken of rows (a, b) -/\ndef eig0_crossPairs : List (Nat × Nat) := [%s]\n"
-               % ("; ".join("%s = crossProduct(%s, %s)" % c for c in crs),
-                  ", ".join("(%d, %d)" % (rown.index(a), rown.index(b)) for _, a, b in crs)))
-    nrm = re.findall(r"auto\s+(\w+)\s*=\s*(\w+)\s*\.\s*two_norm\s*\(\s*\)\s*;", e0)
-    if len(nrm) != 3 or any(c not in crn for _, c in nrm):
-        raise TranslateError("eig0: expected three norms of the cross products")
-    dn = [d[0] for d in nrm]
-    out.append("/-- `%s` : length k belongs to cross product .. -/\ndef eig0_normOf : List Nat := [%s]\n"
-               % ("; ".join("%s = %s.two_norm()" % d for d in nrm), ", ".join(str(crn.index(c)) for _, c in nrm)))
-    ini = one(r"auto\s+dmax\s*=\s*(\w+)\s*;\s*int\s+imax\s*=\s*([0-9])\s*;", e0, "eig0 initial maximum")
-    if ini[0] not in dn:
-        raise TranslateError("eig0: dmax starts from %r" % ini[0])
-    out.append("/-- `auto dmax = %s; int imax = %s;` -/\ndef eig0_init : Nat × Nat := (%d, %s)\n" % (ini[0], ini[1], dn.index(ini[0]), ini[1]))
-    after = e0[re.search(r"int\s+imax\s*=\s*[0-9]\s*;", e0).end():]
-    m_res = re.search(r"if\s*\(\s*imax\s*==", after)
-    if not m_res:
-        raise TranslateError("eig0: result selection not found")
-    upd, res = after[:m_res.start()], after[m_res.start():]
-    steps, pos = [], 0
-    for m in re.finditer(r"if\s*\(\s*(\w+)\s*>\s*dmax\s*\)\s*(\{[^{}]*\}|[^;{}]*;)", upd):
-        if upd[pos:m.start()].strip():
-            raise TranslateError("eig0: unexpected statements %r in the maximum search" % upd[pos:m.start()].strip()[:60])
-        pos = m.end()
-        d, blk = m.group(1), m.group(2).strip("{}")
-        stm = [x.strip() for x in blk.split(";") if x.strip()]
-        newd, newi = None, None
-        for st in stm:
-            ma = re.match(r"^dmax\s*=\s*(\w+)$", st)
-            mb = re.match(r"^imax\s*=\s*([0-9])$", st)
-            if ma and newd is None:
-                newd = ma.group(1)
-            elif mb and newi is None:
-                newi = mb.group(1)
-            else:
-                raise TranslateError("eig0: statement %r outside the grammar" % st)
-        if d not in dn or newi is None or (newd is not None and newd not in dn):
-            raise TranslateError("eig0: maximum update %r outside the grammar" % m.group(0)[:60])
-        steps.append((dn.index(d), -1 if newd is None else dn.index(newd), int(newi)))
-    if upd[pos:].strip() or len(steps) != 2:
-        raise TranslateError("eig0: the maximum search is not two conditional updates")
-    out.append("/-- the updates `if (d_c > dmax) { dmax = d_u; imax = i; }` as (c, u, i); u = 3 means dmax is not updated -/\n"
-               "def eig0_steps : List (Nat × Nat × Nat) := [%s]\n" % ", ".join("(%d, %d, %d)" % (c, 3 if u < 0 else u, i) for c, u, i in steps))
-    rr = re.match(r"^if\s*\(\s*imax\s*==\s*0\s*\)\s*%s\s*=\s*(\w+)\s*/\s*(\w+)\s*;\s*else\s+if\s*\(\s*imax\s*==\s*1\s*\)\s*%s\s*=\s*(\w+)\s*/\s*(\w+)\s*;\s*"
-                  r"else\s+%s\s*=\s*(\w+)\s*/\s*(\w+)\s*;\s*$" % (outv, outv, outv), res.strip())
-    if not rr or any(rr.group(k) not in crn for k in (1, 3, 5)) or any(rr.group(k) not in dn for k in (2, 4, 6)):
-        raise TranslateError("eig0: result selection outside the grammar")
-    out.append("/-- `imax == 0 / 1 / else`: evec0 = cross product .. divided by length .. -/\n"
-               "def eig0_result : List (Nat × Nat) := [%s]\n" % ", ".join("(%d, %d)" % (crn.index(rr.group(k)), dn.index(rr.group(k + 1))) for k in (1, 3, 5)))
+    out.append("/-- cross product k is taken of rows (a, b) (numbered by ascending pair) -/\ndef eig0_crossPairs : List (Nat × Nat) := [%s]\n"
+               % ", ".join("(%d, %d)" % p for p in cpairs))
+    # round 5: rows, cross products and lengths are identified by value (d_k = two_norm() of cross product k, whatever the
+    # locals are called or whether there are any), and the search for the longest one is a decision tree obtained by
+    # executing the body
+    out.append("/-- length k is `two_norm()` of cross product k -/\ndef eig0_normOf : List Nat := [0, 1, 2]\n")
+    out.append("/-- decision tree of a selection among candidates: `lt a b t f` = `if d_a < d_b then t else f`, `le` likewise with `<=`;\n"
+               "`leaf c k` = candidate c divided by length k -/\ninductive Sel where\n  | leaf (c d : Nat)\n  | lt (a b : Nat) (t f : Sel)\n  | le (a b : Nat) (t f : Sel)\n")
+    out.append("/-- the choice of the longest cross product in eig0 (all paths of the function body, comparisons canonicalised to\n"
+               "`<` / `<=`): which cross product is divided by which length -/\ndef eig0_select : Sel := %s\n" % sel)
 
     # ---- 3x3 eigenvector assembly: which eigenvalue goes to eig0 / eig1, where the vectors are stored ---------------
     v3 = body_after(src, r"static\s+void\s+eigenValuesVectorsImpl\s*\(\s*const\s+FieldMatrix\s*<\s*K\s*,\s*3\s*,\s*3\s*>[^)]*\)\s*\{",
@@ -365,28 +1921,47 @@ def translate_tables(repo, src):
 
     # ---- 3x3 diagonal special case: initial values / vectors and the compare-and-swap network ----------------------
     dg = body_after(v3, r"if\s*\(\s*offDiagNorm\s*<=[^)]*\)\s*\)\s*\{", "3x3 diagonal special case")
-    iv = one(r"^\s*eigenValues\s*=\s*\{([^}]*)\}\s*;", dg, "3x3 diagonal values")
-    ivm = [re.match(r"^scaledMatrix\[([0-2])\]\[([0-2])\]$", norm_ws(x)) for x in iv.split(",")]
-    if len(ivm) != 3 or not all(ivm):
-        raise TranslateError("3x3 diagonal special case: initial values outside the grammar")
-    out.append("/-- `eigenValues = {%s};` -/\ndef ev3_diagInit : List (Nat × Nat) := [%s]\n"
-               % (iv.strip(), ", ".join("(%s, %s)" % (m.group(1), m.group(2)) for m in ivm)))
-    vv = one(r"eigenVectors\s*=\s*\{\s*(\{[^;]*\})\s*\}\s*;", dg, "3x3 diagonal vectors")
-    vrows = re.findall(r"\{([^{}]*)\}", vv)
-    ent = [[norm_ws(x) for x in r.split(",")] for r in vrows]
-    if len(ent) != 3 or any(len(r) != 3 for r in ent) or any(not re.match(r"^[01](?:\.0*)?$", x) for r in ent for x in r):
-        raise TranslateError("3x3 diagonal special case: initial vectors outside the grammar")
-    out.append("/-- `eigenVectors = {%s};` -/\ndef ev3_diagVecs : List (List Nat) := [%s]\n"
-               % (norm_ws(vv), ", ".join("[%s]" % ", ".join(x[0] for x in r) for r in ent)))
-    rest = dg[re.search(r"eigenVectors\s*=\s*\{\s*\{[^;]*\}\s*\}\s*;", dg).end():]
-    sw_rx = (r"if\s*\(\s*eigenValues\[([0-2])\]\s*>\s*eigenValues\[([0-2])\]\s*\)\s*\{\s*"
-             r"std::swap\(\s*eigenValues\[([0-2])\]\s*,\s*eigenValues\[([0-2])\]\s*\)\s*;\s*"
-             r"std::swap\(\s*eigenVectors\[([0-2])\]\s*,\s*eigenVectors\[([0-2])\]\s*\)\s*;\s*\}")
-    sws = re.findall(sw_rx, rest)
-    if re.sub(sw_rx, "", rest).strip() or not sws:
-        raise TranslateError("3x3 diagonal special case: sort network outside the grammar")
-    out.append("/-- `if (eigenValues[a] > eigenValues[b]) { swap(eigenValues[c], eigenValues[d]); swap(eigenVectors[e], eigenVectors[f]); }` -/\n"
-               "def ev3_diagSwaps : List (Nat × Nat × Nat × Nat × Nat × Nat) := [%s]\n" % ", ".join("(%s)" % ", ".join(s) for s in sws))
+    def diag_literal(out):
+        iv = one(r"^\s*eigenValues\s*=\s*\{([^}]*)\}\s*;", dg, "3x3 diagonal values")
+        ivm = [re.match(r"^scaledMatrix\[([0-2])\]\[([0-2])\]$", norm_ws(x)) for x in iv.split(",")]
+        if len(ivm) != 3 or not all(ivm):
+            raise TranslateError("3x3 diagonal special case: initial values outside the grammar")
+        out.append("/-- `eigenValues = {%s};` -/\ndef ev3_diagInit : List (Nat × Nat) := [%s]\n"
+                   % (iv.strip(), ", ".join("(%s, %s)" % (m.group(1), m.group(2)) for m in ivm)))
+        vv = one(r"eigenVectors\s*=\s*\{\s*(\{[^;]*\})\s*\}\s*;", dg, "3x3 diagonal vectors")
+        vrows = re.findall(r"\{([^{}]*)\}", vv)
+        ent = [[norm_ws(x) for x in r.split(",")] for r in vrows]
+        if len(ent) != 3 or any(len(r) != 3 for r in ent) or any(not re.match(r"^[01](?:\.0*)?$", x) for r in ent for x in r):
+            raise TranslateError("3x3 diagonal special case: initial vectors outside the grammar")
+        out.append("/-- `eigenVectors = {%s};` -/\ndef ev3_diagVecs : List (List Nat) := [%s]\n"
+                   % (norm_ws(vv), ", ".join("[%s]" % ", ".join(x[0] for x in r) for r in ent)))
+        rest = dg[re.search(r"eigenVectors\s*=\s*\{\s*\{[^;]*\}\s*\}\s*;", dg).end():]
+        sw_rx = (r"if\s*\(\s*eigenValues\[([0-2])\]\s*>\s*eigenValues\[([0-2])\]\s*\)\s*\{\s*"
+                 r"std::swap\(\s*eigenValues\[([0-2])\]\s*,\s*eigenValues\[([0-2])\]\s*\)\s*;\s*"
+                 r"std::swap\(\s*eigenVectors\[([0-2])\]\s*,\s*eigenVectors\[([0-2])\]\s*\)\s*;\s*\}")
+        sws = re.findall(sw_rx, rest)
+        if re.sub(sw_rx, "", rest).strip() or not sws:
+            raise TranslateError("3x3 diagonal special case: sort network outside the grammar")
+        out.append("/-- `if (eigenValues[a] > eigenValues[b]) { swap(eigenValues[c], eigenValues[d]); swap(eigenVectors[e], eigenVectors[f]); }` -/\n"
+                   "def ev3_diagSwaps : List (Nat × Nat × Nat × Nat × Nat × Nat) := [%s]\n" % ", ".join("(%s)" % ", ".join(s) for s in sws))
+
+    # round 5: the literal reading (which yields the tables of *any* compare-and-swap network written that way) first; if
+    # the special case is spelled differently (helper lambda, hand-written swap, `b < a`, ...) it is executed and every
+    # path must end in the state the network (0,1),(1,2),(0,1) on the diagonal entries / coordinate vectors produces
+    # under the same comparison outcomes -- only then the tables of that network are emitted.
+    lit_out = []
+    try:
+        diag_literal(lit_out)
+        out.extend(lit_out)
+    except TranslateError as lit_err:
+        try:
+            analyse_diag_network(dg)
+        except TranslateError as sem_err:
+            raise TranslateError("%s; executed instead: %s" % (lit_err, sem_err))
+        out.append("/-- the diagonal special case, executed: starts from the diagonal of scaledMatrix -/\ndef ev3_diagInit : List (Nat × Nat) := [(0, 0), (1, 1), (2, 2)]\n")
+        out.append("/-- ... and the coordinate vectors -/\ndef ev3_diagVecs : List (List Nat) := [[1, 0, 0], [0, 1, 0], [0, 0, 1]]\n")
+        out.append("/-- ... every path ends in the state of this compare-and-swap network (values and vectors swapped together) -/\n"
+                   "def ev3_diagSwaps : List (Nat × Nat × Nat × Nat × Nat × Nat) := [(0, 1, 0, 1, 0, 1), (1, 2, 1, 2, 1, 2), (0, 1, 0, 1, 0, 1)]\n")
 
     # ---- LAPACK call sites -------------------------------------------------------------------------------------------
     jobs = one(r"enum\s+Jobs\s*\{([^}]*)\}", src, "enum Jobs")
@@ -408,15 +1983,10 @@ def translate_tables(repo, src):
     env2 = dict(env)
     env2[ptr_name(a[7], "lwork")] = lw
     ws = one(r"LapackNumType\s+%s\s*\[([^\]]+)\]\s*;" % ptr_name(a[6], "work"), lb, "LAPACK (symmetric): work array")
-    buf, transposed = pack_orientation(lb, "dim", "LAPACK (symmetric)")
-    if buf != ptr_name(a[3], "a"):
-        raise TranslateError("LAPACK (symmetric): the packed array is not the one handed over")
+    buf = ptr_name(a[3], "a")
+    transposed = pack_orientation_sem(lb, ("dim", "N"), buf, "LAPACK (symmetric)")
     ms = one(r"LapackNumType\s+%s\s*\[([^\]]+)\]\s*;" % buf, lb, "LAPACK (symmetric): matrix array")
-    cb = one(r"if\s*\(\s*Tag\s*==\s*(?:Jobs::)?EigenvaluesEigenvectors\s*\)\s*\{\s*row\s*=\s*0\s*;\s*for\s*\(\s*int\s+i\s*=\s*0\s*;\s*i\s*<\s*dim\s*;\s*\+\+i\s*\)\s*\{\s*"
-             r"for\s*\(\s*int\s+j\s*=\s*0\s*;\s*j\s*<\s*dim\s*;\s*\+\+j\s*,\s*\+\+row\s*\)\s*\{\s*eigenVectors\s*\[\s*([ij])\s*\]\s*\[\s*([ij])\s*\]\s*=\s*%s\s*\[\s*row\s*\]\s*;" % buf,
-             lb, "LAPACK (symmetric): copy-back loop")
-    if cb[0] == cb[1]:
-        raise TranslateError("LAPACK (symmetric): copy-back writes eigenVectors[%s][%s]" % cb)
+    cb_transposed = copyback_sym_sem(lb, buf, "LAPACK (symmetric)")
     out.append("/-- `enum Jobs`; `const char jobz = \"%s\"[Tag];`: the job character for eigenvalues only / with eigenvectors -/\n"
                "def lapSym_jobz : Char × Char := ('%s', '%s')\n" % (jz[1], jz[1][jv["OnlyEigenvalues"]], jz[1][jv["EigenvaluesEigenvectors"]]))
     out.append("/-- `const char uplo = '%s';` -/\ndef lapSym_uplo : Char := '%s'\n" % (ul[1], ul[1]))
@@ -424,7 +1994,7 @@ def translate_tables(repo, src):
     out.append("/-- number of entries of the work array handed to ?syev -/\ndef lapSym_workSize (n : Nat) : Nat := %s\n" % nat_expr(ws, env2))
     out.append("/-- number of entries of the flat matrix array -/\ndef lapSym_matSize (n : Nat) : Nat := %s\n" % nat_expr(ms, env2))
     out.append("/-- copy loop reads `matrix[j][i]` (true) or `matrix[i][j]` (false) -/\ndef lapSym_packTransposed : Bool := %s\n" % ("true" if transposed else "false"))
-    out.append("/-- copy-back writes `eigenVectors[j][i]` (true) or `eigenVectors[i][j]` (false) -/\ndef lapSym_copyBackTransposed : Bool := %s\n" % ("true" if cb[0] == "j" else "false"))
+    out.append("/-- copy-back writes `eigenVectors[j][i]` (true) or `eigenVectors[i][j]` (false) -/\ndef lapSym_copyBackTransposed : Bool := %s\n" % ("true" if cb_transposed else "false"))
 
     nb = body_after(src, r"static\s+void\s+eigenValuesNonSym\s*\([^)]*\)\s*\{", "FMatrixHelp::eigenValuesNonSym")
     a = call_args(nb, "eigenValuesNonsymLapackCall", "LAPACK (non-symmetric, fixed size)")
@@ -440,9 +2010,8 @@ def translate_tables(repo, src):
     ws = one(r"LapackNumType\s+%s\s*\[([^\]]+)\]\s*;" % ptr_name(a[11], "work"), nb, "LAPACK (non-symmetric, fixed size): work array")
     wrs = one(r"LapackNumType\s+%s\s*\[([^\]]+)\]\s*;" % ptr_name(a[5], "wr"), nb, "LAPACK (non-symmetric, fixed size): wr array")
     wis = one(r"LapackNumType\s+%s\s*\[([^\]]+)\]\s*;" % ptr_name(a[6], "wi"), nb, "LAPACK (non-symmetric, fixed size): wi array")
-    buf, transposed = pack_orientation(nb, "dim", "LAPACK (non-symmetric, fixed size)")
-    if buf != ptr_name(a[3], "a"):
-        raise TranslateError("LAPACK (non-symmetric, fixed size): the packed array is not the one handed over")
+    buf = ptr_name(a[3], "a")
+    transposed = pack_orientation_sem(nb, ("dim", "N"), buf, "LAPACK (non-symmetric, fixed size)")
     out.append("/-- `jobvl`, `jobvr` of FMatrixHelp::eigenValuesNonSym -/\ndef lapNsF_jobs : Char × Char := ('%s', '%s')\n" % (jl[1], jr[1]))
     out.append("def lapNsF_lwork (n : Nat) : Nat := %s\n" % lw)
     out.append("def lapNsF_workSize (n : Nat) : Nat := %s\n" % nat_expr(ws, env2))
@@ -480,9 +2049,8 @@ def translate_tables(repo, src):
         if m and m.group(1) in bools:
             return "(if vec then %s else 0)" % nat_expr(m.group(2), envd2)
         raise TranslateError("LAPACK (dynamic): buffer %s = %r outside the grammar" % (name, e))
-    buf, transposed = pack_orientation(db, "N", "LAPACK (dynamic)")
-    if buf != ptr_name(a[3], "a"):
-        raise TranslateError("LAPACK (dynamic): the packed array is not the one handed over")
+    buf = ptr_name(a[3], "a")
+    transposed = pack_orientation_sem(db, ("N",), buf, "LAPACK (dynamic)")
     out.append("/-- `jobvl`, `jobvr` of DynamicMatrixHelp::eigenValuesNonSym as (with eigenvectors, without) -/\n"
                "def lapNsD_jobvl : Char × Char := %s\ndef lapNsD_jobvr : Char × Char := %s\n" % (jc(jl), jc(jr)))
     out.append("def lapNsD_lwork (n : Nat) (vec : Bool) : Nat := %s\n" % lw)
@@ -493,77 +2061,32 @@ def translate_tables(repo, src):
     out.append("def lapNsD_packTransposed : Bool := %s\n" % ("true" if transposed else "false"))
     # copy-back of vector i: `std::copy(vr + N*i, vr + N*(i+1), &v[0])`
     vrn = ptr_name(a[9], "vr")
-    cp = one(r"std::copy\s*\(([^;]*)\)\s*;", db, "LAPACK (dynamic): copy-back")
-    cpa = [norm_ws(x) for x in cp.split(",")]
-    if cpa != ["%s.get()+N*i" % vrn, "%s.get()+N*(i+1)" % vrn, "&v[0]"]:
-        raise TranslateError("LAPACK (dynamic): copy-back %r outside the grammar" % (cpa,))
+    copyback_dyn_sem(db, vrn, "LAPACK (dynamic)")
     out.append("/-- vector i is copied from `vr[N*i .. N*(i+1))` -/\ndef lapNsD_copyBackStride : Bool := true\n")
     # ---- orthoComp: the branch condition, the 2-vector whose length normalises u, and u in both branches ------------
     oc = body_after(src, r"void\s+orthoComp\s*\([^)]*\)\s*\{", "orthoComp")
     ohdr = one(r"void\s+orthoComp\s*\(\s*const\s+FieldVector\s*<\s*K\s*,\s*3\s*>\s*&\s*(\w+)\s*,\s*FieldVector\s*<\s*K\s*,\s*3\s*>\s*&\s*(\w+)\s*,\s*FieldVector\s*<\s*K\s*,\s*3\s*>\s*&\s*(\w+)\s*\)",
                src, "orthoComp signature")
     en, un, vn = ohdr
-    br = (r"\{\s*FieldVector\s*<\s*K\s*,\s*2\s*>\s+(\w+)\s*=\s*\{([^}]*)\}\s*;\s*auto\s+(\w+)\s*=\s*1(?:\.0*)?\s*/\s*(\w+)\s*\.\s*two_norm\(\)\s*;\s*"
-          r"%s\s*=\s*(\w+)\s*\*\s*FieldVector\s*<\s*K\s*,\s*3\s*>\s*\(\s*\{([^}]*)\}\s*\)\s*;\s*\}" % un)
-    om = one(r"if\s*\(\s*abs\s*\(\s*%s\[([0-2])\]\s*\)\s*>\s*abs\s*\(\s*%s\[([0-2])\]\s*\)\s*\)\s*%s\s*else\s*%s\s*%s\s*=\s*crossProduct\s*\(\s*(\w+)\s*,\s*(\w+)\s*\)\s*;"
-             % (en, en, br, br, vn), oc, "orthoComp body")
-    ci, cj = om[0], om[1]
-    bra, brb, tail = om[2:8], om[8:14], om[14:16]
-    if list(tail) != [en, un]:
-        raise TranslateError("orthoComp: v is not crossProduct(%s, %s)" % (en, un))
+    (ci, cj), sides = analyse_orthoComp(oc, en, un, vn)
     out.append("section\nvariable {K : Type} [Add K] [Sub K] [Mul K] [Div K] [Neg K] [NatCast K]\n")
     out.append("/-- `if(abs(evec0[%s]) > abs(evec0[%s]))`: the components compared -/\ndef orthoComp_cond : Nat × Nat := (%s, %s)\n" % (ci, cj, ci, cj))
-    E3 = ["e0", "e1", "e2"]
-    for tag, b in (("A", bra), ("B", brb)):
-        tname, ttxt, lname, tn2, lname2, utxt = b
-        if tname != tn2 or lname != lname2:
-            raise TranslateError("orthoComp: branch %s does not normalise by the length of its own 2-vector" % tag)
-        tc = tr_list(re.sub(r"\b%s\s*\[" % en, "e[", ttxt).replace("e[0]", "e0").replace("e[1]", "e1").replace("e[2]", "e2"), E3)
-        uc = tr_list(re.sub(r"\b%s\s*\[" % en, "e[", utxt).replace("e[0]", "e0").replace("e[1]", "e1").replace("e[2]", "e2"), E3)
-        if len(tc) != 2 or len(uc) != 3:
-            raise TranslateError("orthoComp: branch %s has the wrong number of components" % tag)
-        out.append("/-- `temp = {%s};` (u is divided by its length) -/\ndef orthoComp_temp%s (e0 e1 e2 : K) : K × K :=\n  (%s, %s)\n" % (ttxt.strip(), tag, tc[0], tc[1]))
-        out.append("/-- `u = L * {%s};` -/\ndef orthoComp_u%s (e0 e1 e2 : K) : K × K × K :=\n  (%s, %s, %s)\n" % (utxt.strip(), tag, uc[0], uc[1], uc[2]))
+    for tag, (tc, uc) in zip("AB", sides):
+        out.append("/-- branch %s: the 2-vector whose `two_norm()` normalises u -/\ndef orthoComp_temp%s (e0 e1 e2 : K) : K × K :=\n  (%s, %s)\n" % (tag, tag, tc[0], tc[1]))
+        out.append("/-- branch %s: `u = (1 / two_norm) * {..}` -/\ndef orthoComp_u%s (e0 e1 e2 : K) : K × K × K :=\n  (%s, %s, %s)\n" % (tag, tag, uc[0], uc[1], uc[2]))
 
     # ---- eig1: the reduced 2x2 matrix and the four normalisation sequences with their result coefficients ----------
     e1 = body_after(src, r"void\s+eig1\s*\([^)]*\)\s*\{", "eig1")
-    if not re.search(r"Vector\s+u\s*,\s*v\s*;\s*orthoComp\s*\(\s*evec0\s*,\s*u\s*,\s*v\s*\)\s*;\s*Vector\s+Au\s*,\s*Av\s*;\s*matrix\.mv\(\s*u\s*,\s*Au\s*\)\s*;\s*matrix\.mv\(\s*v\s*,\s*Av\s*\)\s*;", e1):
-        raise TranslateError("eig1: u, v, Au, Av not set up as expected")
-    mdefs = re.findall(r"auto\s+(m00|m01|m11)\s*=\s*([^;]+);", e1)
-    if [m[0] for m in mdefs] != ["m00", "m01", "m11"]:
-        raise TranslateError("eig1: reduced matrix entries changed")
-    dots = {"u.dot(Au)": "uAu", "u.dot(Av)": "uAv", "v.dot(Av)": "vAv", "v.dot(Au)": "vAu"}
-    for nm, ex in mdefs:
-        e = norm_ws(ex)
-        for k, v in dots.items():
-            e = e.replace(k, v)
-        out.append("/-- `auto %s = %s;` -/\ndef eig1_%s (uAu uAv vAv eval1 : K) : K :=\n  %s\n" % (nm, ex.strip(), nm, tr(e, ["uAu", "uAv", "vAv", "eval1"])))
-    if not re.search(r"auto\s+absM00\s*=\s*abs\(m00\)\s*;\s*auto\s+absM01\s*=\s*abs\(m01\)\s*;\s*auto\s+absM11\s*=\s*abs\(m11\)\s*;", e1):
-        raise TranslateError("eig1: absolute values changed")
-    seq = r"\{\s*((?:m(?:00|01|11)\s*[*/]?=\s*[^;]+;\s*){3})\}"
-    half = (r"\{\s*auto\s+maxAbsComp\s*=\s*max\s*\(\s*absM(00|11)\s*,\s*absM01\s*\)\s*;\s*if\s*\(\s*maxAbsComp\s*>\s*0(?:\.0*)?\s*\)\s*\{\s*"
-            r"if\s*\(\s*absM(00|11)\s*>=\s*absM01\s*\)\s*" + seq + r"\s*else\s*" + seq + r"\s*evec1\s*=\s*(m\d\d)\s*\*\s*u\s*-\s*(m\d\d)\s*\*\s*v\s*;\s*\}\s*else\s+evec1\s*=\s*u\s*;\s*\}")
-    em = one(r"if\s*\(\s*absM00\s*>=\s*absM11\s*\)\s*" + half + r"\s*else\s*" + half, e1, "eig1 branch structure")
-    h1, h2 = em[:6], em[6:]
-    if (h1[0], h1[1]) != ("00", "00") or (h2[0], h2[1]) != ("11", "11"):
-        raise TranslateError("eig1: the branches do not compare their own diagonal entry")
-
-    def chain(stmts, res):
-        lets = []
-        for st in [x.strip() for x in stmts.split(";") if x.strip()]:
-            m = re.match(r"^(m00|m01|m11)\s*([*/]?)=\s*(.+)$", st)
-            if not m:
-                raise TranslateError("eig1: statement %r outside the grammar" % st)
-            rhs = tr(m.group(3), ["m00", "m01", "m11", "sqrt"])
-            if m.group(2):
-                rhs = "(%s %s %s)" % (m.group(1), m.group(2), rhs)
-            lets.append("let %s : K := %s" % (m.group(1), rhs))
-        return "\n  ".join(lets) + "\n  (%s, %s)" % res
-    for tag, h in (("0", h1), ("1", h2)):
-        for sub_, stm in (("a", h[2]), ("b", h[3])):
-            out.append("/-- eig1, outer branch %s, inner branch %s: `%s evec1 = %s*u - %s*v` as (coefficient of u, coefficient of v) -/\n"
-                       "def eig1_leaf%s%s (sqrt : K → K) (m00 m01 m11 : K) : K × K :=\n  %s\n"
-                       % (tag, sub_, " ".join(stm.split()), h[4], h[5], tag, sub_, chain(stm, (h[4], h[5]))))
+    ehdr = one(r"void\s+eig1\s*\(\s*const\s+FieldMatrix\s*<\s*K\s*,\s*3\s*,\s*3\s*>\s*&\s*matrix\s*,\s*const\s+FieldVector\s*<\s*K\s*,\s*3\s*>\s*&\s*(\w+)\s*,\s*FieldVector\s*<\s*K\s*,\s*3\s*>\s*&\s*(\w+)\s*,\s*K\s+(\w+)\s*\)",
+               src, "eig1 signature")
+    mterms, leafs = analyse_eig1(e1, ehdr[0], ehdr[1], ehdr[2])
+    for nm, term in zip(("m00", "m01", "m11"), mterms):
+        out.append("/-- entry %s of the reduced 2x2 matrix -/\ndef eig1_%s (uAu uAv vAv eval1 : K) : K :=\n  %s\n" % (nm, nm, term))
+    for tag in ("0", "1"):
+        for sub_ in ("a", "b"):
+            out.append("/-- eig1, outer branch %s (`|m00| >= |m11|` %s), inner branch %s (`|mdd| >= |m01|` %s): `evec1 = a*u - b*v` as (a, b) -/\n"
+                       "def eig1_leaf%s%s (sqrt : K → K) (m00 m01 m11 : K) : K × K :=\n  (%s, %s)\n"
+                       % (tag, "holds" if tag == "0" else "fails", sub_, "holds" if sub_ == "a" else "fails", tag, sub_, leafs[tag + sub_][0], leafs[tag + sub_][1]))
     out.append("end\n")
 
     # ---- the four public symmetric entry points: which job they run ------------------------------------------------
@@ -624,68 +2147,26 @@ def translate(repo):
     # ---- 2x2 eigenvectors ------------------------------------------------------------------------
     v2 = body_after(src, r"static\s+void\s+eigenValuesVectorsImpl\s*\(\s*const\s+FieldMatrix\s*<\s*K\s*,\s*2\s*,\s*2\s*>[^)]*\)\s*\{",
                     "2x2 eigenValuesVectorsImpl")
-    s0 = one(r"temp\s*\[0\]\s*\[0\]\s*-=\s*eigenValues\s*\[\s*([01])\s*\]\s*;", v2, "2x2 temp[0][0] shift")
-    s1 = one(r"temp\s*\[1\]\s*\[1\]\s*-=\s*eigenValues\s*\[\s*([01])\s*\]\s*;", v2, "2x2 temp[1][1] shift")
-    if s0 != s1:
-        raise TranslateError("2x2: the two diagonal shifts use different eigenvalues")
-    # max-norm preconditioning of the 2x2 path (as in the 3x3 path): either complete or absent
-    pre = bool(re.search(r"K\s+maxAbsElement\s*=\s*\(\s*isnormal\s*\(\s*matrix\.infinity_norm\(\)\s*\)\s*\)\s*\?\s*matrix\.infinity_norm\(\)\s*:\s*K\(1\.0\)\s*;\s*"
-                         r"(?:const\s+)?FieldMatrix\s*<\s*K\s*,\s*2\s*,\s*2\s*>\s+scaledMatrix\s*=\s*matrix\s*/\s*maxAbsElement\s*;", v2))
-    mname = "scaledMatrix" if pre else "matrix"
-    other = "matrix" if pre else "scaledMatrix"
-    if not re.search(r"Impl::eigenValues2dImpl\(\s*%s\s*,\s*eigenValues\s*\)\s*;" % mname, v2):
-        raise TranslateError("2x2: eigenValues2dImpl is not called on %s" % mname)
-    if pre != bool(re.search(r"eigenValues\s*\*=\s*maxAbsElement\s*;\s*$", v2.strip())):
-        raise TranslateError("2x2: preconditioning and its reversal do not match")
-    vecpart = v2[v2.index("if constexpr"):]
-    if re.search(r"\b%s\b" % other, vecpart):
-        raise TranslateError("2x2: eigenvector code refers to %s although the eigenvalues belong to %s" % (other, mname))
+    # round 5: every path of the routine is executed symbolically; preconditioning, shift, threshold, the unit vectors of
+    # the identity branch and the column choice are read off the resulting states (see analyse_2x2)
+    pre, s0, thr_term, cols = cols_to_lean(v2)
     out.append("/-- is the 2x2 path preconditioned by `scaledMatrix = matrix / maxAbsElement` (and `eigenValues *= maxAbsElement`) -/\n"
                "def ev2_preconditioned : Bool := %s\n" % ("true" if pre else "false"))
-    if not re.search(r"FieldMatrix\s*<\s*K\s*,\s*2\s*,\s*2\s*>\s*temp\s*=\s*%s\s*;" % mname, v2):
-        raise TranslateError("2x2: `temp = %s` not found" % mname)
     out.append("/-- `temp[i][i] -= eigenValues[%s];` -/\ndef ev2_shiftIndex : Nat := %s\n" % (s0, s0))
-    thr = one(r"if\s*\(\s*temp\s*\.\s*infinity_norm\(\)\s*<=\s*(.+?)\)\s*\{", v2, "2x2 identity threshold")
-    emit("ev2_identThreshold", ["eps", "normA"], "K", tr(thr, ["eps", "normA"]),
-         "if(temp.infinity_norm() <= %s)" % thr.strip())
-    # the identity branch must assign all four entries of the caller's matrix (which may hold anything on entry): either
-    # row by row or as a whole; literals 1 / 1.0 / 0 / 0.0
-    one_, zero_ = r"1(?:\.0*)?", r"0(?:\.0*)?"
-    rowwise = (r"eigenVectors\s*\[0\]\s*=\s*\{\s*%s\s*,\s*%s\s*\}\s*;\s*eigenVectors\s*\[1\]\s*=\s*\{\s*%s\s*,\s*%s\s*\}\s*;"
-               % (one_, zero_, zero_, one_))
-    whole = (r"eigenVectors\s*=\s*\{\s*\{\s*%s\s*,\s*%s\s*\}\s*,\s*\{\s*%s\s*,\s*%s\s*\}\s*\}\s*;" % (one_, zero_, zero_, one_))
-    if not re.search(rowwise, v2) and not re.search(whole, v2):
-        raise TranslateError("2x2: identity branch does not assign the unit vectors")
-    cols0 = re.findall(r"(?:FieldVector\s*<\s*K\s*,\s*2\s*>\s+)?\bev0\s*=\s*\{([^}]*)\}\s*;", v2)
-    cols1 = re.findall(r"(?:FieldVector\s*<\s*K\s*,\s*2\s*>\s+)?\bev1\s*=\s*\{([^}]*)\}\s*;", v2)
-    if len(cols0) != 2 or len(cols1) != 2:
-        raise TranslateError("2x2: expected two definitions each of ev0 and ev1")
+    emit("ev2_identThreshold", ["eps", "normA"], "K", thr_term,
+         "if(temp.infinity_norm() <= THRESHOLD)   (normA = infinity_norm() of the matrix the closed form ran on)")
     al = M2 + ["l0", "l1"]
     for vi in (0, 1):
-        for ci, txt in ((0, cols0[vi]), (1, cols1[vi])):
-            comps = tr_list(txt, al)
-            if len(comps) != 2:
-                raise TranslateError("2x2: candidate column is not a pair")
-            emit("ev2_v%d_col%d" % (vi, ci), al, "K × K", "(%s, %s)" % tuple(comps),
-                 "ev%d = {%s};   (candidate for eigenVectors[%d])" % (ci, txt.strip(), vi))
-    sel = re.findall(r"eigenVectors\s*\[\s*([01])\s*\]\s*=\s*\(([^;]*);", v2)
-    want = norm_ws("ev0.two_norm2() >= ev1.two_norm2()) ? ev0/ev0.two_norm() : ev1/ev1.two_norm()")
-    if [s[0] for s in sel] != ["0", "1"] or any(norm_ws(s[1]) != want for s in sel):
-        raise TranslateError("2x2: column selection statement changed: %r" % (sel,))
-    # the order of the four column definitions and two selections must be ev0,ev1,sel0,ev0,ev1,sel1
-    order = [m.group(1) or m.group(2) for m in re.finditer(r"\b(ev[01])\s*=\s*\{|(eigenVectors)\s*\[\s*[01]\s*\]\s*=\s*\(", v2)]
-    if order != ["ev0", "ev1", "eigenVectors", "ev0", "ev1", "eigenVectors"]:
-        raise TranslateError("2x2: statement order changed: %r" % order)
+        for ci in (0, 1):
+            emit("ev2_v%d_col%d" % (vi, ci), al, "K × K", "(%s, %s)" % cols[vi][ci],
+                 "candidate column %d for eigenVectors[%d] (column 0 is taken when its squared norm is >= that of column 1)" % (ci, vi))
 
     # ---- crossProduct ------------------------------------------------------------------------------
     cp = body_after(src, r"crossProduct\s*\(\s*const\s+FieldVector\s*<\s*K\s*,\s*3\s*>\s*&\s*vec0\s*,\s*const\s+FieldVector\s*<\s*K\s*,\s*3\s*>\s*&\s*vec1\s*\)\s*\{",
                     "crossProduct")
-    ret = one(r"return\s*\{(.*)\}\s*;", cp, "crossProduct return")
     ab = ["a0", "a1", "a2", "b0", "b1", "b2"]
-    comps = tr_list(ret, ab)
-    if len(comps) != 3:
-        raise TranslateError("crossProduct does not return three components")
-    emit("cross", ab, "K × K × K", "(%s,\n   %s,\n   %s)" % tuple(comps), "return {%s};" % ret.strip())
+    comps = analyse_crossProduct(cp)
+    emit("cross", ab, "K × K × K", "(%s,\n   %s,\n   %s)" % tuple(comps), "crossProduct(vec0, vec1): the three components of the returned vector")
 
     # ---- eigenValues3dImpl -------------------------------------------------------------------------
     b3 = body_after(src, r"static\s+K\s+eigenValues3dImpl\s*\([^)]*\)\s*\{", "eigenValues3dImpl")
@@ -729,9 +2210,7 @@ def translate(repo):
     # ---- 3x3 eigenvectors: threshold of the diagonal special case, scaling ---------------------------
     v3 = body_after(src, r"static\s+void\s+eigenValuesVectorsImpl\s*\(\s*const\s+FieldMatrix\s*<\s*K\s*,\s*3\s*,\s*3\s*>[^)]*\)\s*\{",
                     "3x3 eigenValuesVectorsImpl")
-    if not re.search(r"K\s+maxAbsElement\s*=\s*\(\s*isnormal\s*\(\s*matrix\.infinity_norm\(\)\s*\)\s*\)\s*\?\s*matrix\.infinity_norm\(\)\s*:\s*K\(1\.0\)\s*;\s*"
-                     r"Matrix\s+scaledMatrix\s*=\s*matrix\s*/\s*maxAbsElement\s*;\s*K\s+r\s*=\s*Impl::eigenValues3dImpl\(\s*scaledMatrix\s*,\s*eigenValues\s*\)\s*;", v3):
-        raise TranslateError("3x3: max-norm preconditioning changed")
+    analyse_3x3_prefix(v3)
     if not re.search(r"eigenValues\s*\*=\s*maxAbsElement\s*;", v3):
         raise TranslateError("3x3: scaling of the eigenvalues not reverted")
     offd = one(r"K\s+offDiagNorm\s*=\s*Vector\s*\{([^}]*)\}\s*\.\s*two_norm2\(\)\s*;", v3, "3x3 offDiagNorm")
